@@ -443,10 +443,8 @@ Proof.
   - (* EBigInt *) destruct v; apply good_scalar.
   - (* EFloat *) destruct (write_float bits); apply good_scalar.
   - (* EBigFloat *) destruct v as [[neg m ex pr|neg]|]; [| destruct neg; apply good_scalar | apply good_scalar].
-    destruct (m =? 0); [apply good_scalar|]. destruct (lookup_text _ _); [apply good_scalar | apply good_none].
-  - (* EDecimal *) destruct (dfloat_special d); [apply good_scalar|]. destruct (lookup_text _ _); [apply good_scalar | apply good_none].
-  - (* EBigDecimal *) destruct v as [d|]; [|apply good_scalar].
-    destruct (dfloat_special d); [apply good_scalar|]. destruct (lookup_text _ _); [apply good_scalar | apply good_none].
+    destruct (m =? 0); cbv zeta; apply good_scalar.
+  - (* EBigDecimal *) destruct v as [d|]; cbv zeta; apply good_scalar.
   - (* ENan *) destruct signaling; apply good_scalar.
   - (* EUid *) destruct (length b =? 16)%nat; [apply good_scalar | apply good_none].
   - (* EEnd *) apply good_end_container.
@@ -466,15 +464,6 @@ Lemma bad_upd_en f s : bad (upd_en f s) = bad s. Proof. apply cong_upd_en. Qed.
 Lemma bad_push d s : bad (push d s) = bad s. Proof. apply cong_push. Qed.
 Lemma bad_set_dirty s : bad (set_dirty s) = bad s. Proof. apply cong_set_dirty. Qed.
 Lemma bad_write_quoted lf v s : bad (write_quoted lf v s) = bad s. Proof. apply cong_write_quoted. Qed.
-
-Lemma cong_space_if_hw : cong space_if_hw.
-Proof.
-  split.
-  - intros a b HR. unfold space_if_hw. apply cong_upd_en.
-    destruct (ehw (en a)), (ehw (en b)); try exact HR.
-    + apply cong_emit_nolf, HR.
-    + (* engines differ: the space is written on one side only *)
-Abort.
 
 Lemma bad_space_if_hw s : bad (space_if_hw s) = bad s.
 Proof. unfold space_if_hw. rewrite bad_upd_en. destruct (ehw (en s)); [apply bad_emit_nolf | reflexivity]. Qed.
@@ -629,10 +618,8 @@ Proof.
   - destruct v; apply mono_scalar.
   - destruct (write_float bits); apply mono_scalar.
   - destruct v as [[neg m ex pr|neg]|]; [| destruct neg; apply mono_scalar | apply mono_scalar].
-    destruct (m =? 0); [apply mono_scalar|]. destruct (lookup_text _ _); [apply mono_scalar | apply mono_none].
-  - destruct (dfloat_special d); [apply mono_scalar|]. destruct (lookup_text _ _); [apply mono_scalar | apply mono_none].
-  - destruct v as [d|]; [|apply mono_scalar].
-    destruct (dfloat_special d); [apply mono_scalar|]. destruct (lookup_text _ _); [apply mono_scalar | apply mono_none].
+    destruct (m =? 0); cbv zeta; apply mono_scalar.
+  - destruct v as [d|]; cbv zeta; apply mono_scalar.
   - destruct signaling; apply mono_scalar.
   - destruct (length b =? 16)%nat; [apply mono_scalar | apply mono_none].
   - apply mono_end_container.
@@ -786,4 +773,2021 @@ Proof.
   assert (H : exists k, N.of_nat w - 1 = N.ones k /\ N.of_nat w = 2 ^ k).
   { destruct Hw as [->|[->|[->| ->]]]; [exists 1 | exists 2 | exists 3 | exists 4]; split; reflexivity. }
   destruct H as [k [H1 H2]]. rewrite H1, N.land_ones, <- H2, <- Nat2N.inj_mod, Nat2N.id. reflexivity.
+Qed.
+
+(* ------------------------------------------------------------------ *)
+(** * The array engine on numeric / UID arrays *)
+
+Definition piece := (bytes * Z)%type.
+Definition emit_pieces (ps : list piece) (s : est) : est :=
+  fold_left (fun s p => emit_cd (fst p) (snd p) s) ps s.
+
+(* what the addElementsFunc of kind [k] writes for whole elements, [hw] = hasWrittenElements *)
+Fixpoint elems_pieces (c : ccfg) (k : nkind) (hw : bool) (es : list bytes) : option (list piece) :=
+  match es with
+  | [] => Some []
+  | e :: r => match num_elem c k e with
+              | Some (t, d) => match elems_pieces c k true r with
+                               | Some l => Some ((if hw then [([32], 1%Z)] else []) ++ (t, d) :: l)
+                               | None => None
+                               end
+              | None => None
+              end
+  end.
+
+Definition nonempty {A} (l : list A) : bool := match l with [] => false | _ => true end.
+
+Lemma emit_pieces_app p q s : emit_pieces (p ++ q) s = emit_pieces q (emit_pieces p s).
+Proof. apply fold_left_app. Qed.
+
+Lemma emit_pieces_set_en ps : forall e s, emit_pieces ps (set_en e s) = set_en e (emit_pieces ps s).
+Proof. induction ps as [|p ps IH]; intros e s; cbn; [reflexivity|]. rewrite <- IH. reflexivity. Qed.
+
+Lemma en_emit_pieces ps : forall s, en (emit_pieces ps s) = en s.
+Proof. induction ps as [|p ps IH]; intro s; cbn; [reflexivity|]. rewrite IH. reflexivity. Qed.
+
+Lemma set_en_set_en e e' s : set_en e (set_en e' s) = set_en e s.
+Proof. reflexivity. Qed.
+
+Lemma cong_emit_pieces ps : cong (emit_pieces ps).
+Proof. unfold emit_pieces. apply cong_fold. intro p. apply cong_emit_cd. Qed.
+
+Lemma elems_pieces_app c k es1 : forall hw es2,
+  elems_pieces c k hw (es1 ++ es2) =
+  match elems_pieces c k hw es1 with
+  | None => None
+  | Some p1 => match elems_pieces c k (hw || nonempty es1) es2 with
+               | None => None
+               | Some p2 => Some (p1 ++ p2)
+               end
+  end.
+Proof.
+  induction es1 as [|e es1 IH]; intros hw es2; cbn [app elems_pieces nonempty].
+  - rewrite orb_false_r. destruct (elems_pieces c k hw es2); reflexivity.
+  - destruct (num_elem c k e) as [[t d]|]; [|reflexivity]. rewrite IH. rewrite orb_true_r. cbn [orb].
+    destruct (elems_pieces c k true es1) as [p1|]; [|reflexivity].
+    destruct (elems_pieces c k true es2) as [p2|]; [|reflexivity].
+    rewrite <- app_assoc. reflexivity.
+Qed.
+
+Lemma emit_elems_pieces c k es : forall s,
+  emit_elems c k es s =
+  match elems_pieces c k (ehw (en s)) es with
+  | None => None
+  | Some ps => Some (set_en (set_ehw (ehw (en s) || nonempty es) (en s)) (emit_pieces ps s))
+  end.
+Proof.
+  induction es as [|e r IH]; intro s; cbn [emit_elems elems_pieces nonempty].
+  - rewrite orb_false_r. destruct s as [? ? ? ? ? [] ? ?]; reflexivity.
+  - destruct (num_elem c k e) as [[t d]|]; [|reflexivity]. rewrite IH.
+    replace (ehw (en (emit_cd t d (space_if_hw s)))) with true by reflexivity.
+    destruct (elems_pieces c k true r) as [l|]; [|reflexivity]. f_equal.
+    rewrite emit_pieces_app. cbn [orb]. rewrite orb_true_r.
+    destruct s as [ro co io sto cho0 [ek0 er0 hw0 em0 el0 eb0 ec0 eo0] di ba].
+    unfold space_if_hw, upd_en. cbn [en ehw].
+    destruct hw0; cbn [emit_pieces fold_left fst snd];
+      rewrite <- !emit_pieces_set_en; reflexivity.
+Qed.
+
+Definition eng_upd (e : eng) (r : N) (hw : bool) (L : bytes) : eng := set_eleft L (set_erem r (set_ehw hw e)).
+
+Lemma nk_width_pos k : (0 < nk_width k)%nat.
+Proof. destruct k; cbn; lia. Qed.
+
+Lemma wrap64_sub r j : r < 2 ^ 64 -> N.of_nat j <= r -> wrap64 (Z.of_N r - Z.of_nat j) = r - N.of_nat j.
+Proof.
+  intros Hr Hj. unfold wrap64. rewrite Z.mod_small; [lia|]. split; [lia|].
+  assert (Z.of_N r < 2 ^ 64)%Z by (change (2 ^ 64)%Z with (Z.of_N (2 ^ 64)); lia). lia.
+Qed.
+
+Lemma nonempty_chop w j d : nonempty (chop w j d) = (0 <? j)%nat.
+Proof. destruct j; reflexivity. Qed.
+
+Lemma tail_of_num c k j D s :
+  ek (en s) = KNum k -> length D = (j * nk_width k)%nat -> N.of_nat j <= erem (en s) -> erem (en s) < 2 ^ 64 ->
+  tail_of c (nk_width k) D s =
+  match elems_pieces c k (ehw (en s)) (chop (nk_width k) j D) with
+  | None => None
+  | Some ps => finish_if_done (set_en (eng_upd (en s) (erem (en s) - N.of_nat j) (ehw (en s) || (0 <? j)%nat) (eleft (en s)))
+                                      (emit_pieces ps s))
+  end.
+Proof.
+  intros Ek HD Hj Hr. pose proof (nk_width_pos k) as Hw.
+  unfold tail_of, add_elems. rewrite Ek.
+  rewrite (split_elems_chop (nk_width k) j Hw (length D) D HD) by (rewrite HD; nia).
+  rewrite emit_elems_pieces.
+  destruct (elems_pieces c k (ehw (en s)) (chop (nk_width k) j D)) as [ps|]; [|reflexivity].
+  cbn [bind]. rewrite nonempty_chop. f_equal.
+  rewrite HD, Nat.div_mul by lia.
+  unfold upd_en. cbn [en set_en].
+  replace (erem (set_ehw (ehw (en s) || (0 <? j)%nat) (en s))) with (erem (en s)) by (destruct (en s); reflexivity).
+  rewrite (wrap64_sub _ _ Hr Hj).
+  destruct s as [ro co io sto cho0 [ek0 er0 hw0 em0 el0 eb0 ec0 eo0] di ba]. cbn. reflexivity.
+Qed.
+
+Lemma nk_width_pow2 k : (1 < nk_width k)%nat -> nk_width k = 2%nat \/ nk_width k = 4%nat \/ nk_width k = 8%nat \/ nk_width k = 16%nat.
+Proof. destruct k; cbn; lia. Qed.
+
+Lemma split_tail_num c k d s E' L' :
+  ek (en s) = KNum k -> (1 < nk_width k)%nat -> eleft (en s) = [] ->
+  grp (nk_width k) [] d = (E', L') -> N.of_nat (length E') <= erem (en s) -> erem (en s) < 2 ^ 64 ->
+  split_tail_of c (nk_width k) d s =
+  match elems_pieces c k (ehw (en s)) E' with
+  | None => None
+  | Some ps => finish_if_done (set_en (eng_upd (en s) (erem (en s) - N.of_nat (length E')) (ehw (en s) || nonempty E') L')
+                                      (emit_pieces ps s))
+  end.
+Proof.
+  intros Ek Hw1 El Hg Hj Hr. pose proof (nk_width_pos k) as Hw.
+  rewrite (grp_nil_split (nk_width k) d Hw) in Hg. injection Hg as <- <-.
+  unfold split_tail_of. cbv zeta. rewrite (land_mod_pow2 (length d) (nk_width k) (nk_width_pow2 k Hw1)).
+  set (m := (length d mod nk_width k)%nat). set (j := (length d / nk_width k)%nat).
+  assert (Hd : length d = (j * nk_width k + m)%nat) by (unfold j, m; rewrite Nat.mul_comm; apply Nat.div_mod; lia).
+  rewrite chop_length in Hj |- *. rewrite nonempty_chop.
+  destruct (m =? 0)%nat eqn:Em.
+  - apply Nat.eqb_eq in Em. rewrite Em, Nat.sub_0_r, firstn_all, skipn_all.
+    rewrite (tail_of_num c k j d s Ek) by (try assumption; lia). rewrite El. reflexivity.
+  - set (s' := upd_en _ s).
+    assert (Hen : en s' = set_eleft (skipn (length d - m) d) (en s)).
+    { unfold s', upd_en. cbn [en set_en]. rewrite El. reflexivity. }
+    rewrite (tail_of_num c k j (firstn (length d - m) d) s').
+    + rewrite Hen. replace (ehw (set_eleft _ (en s))) with (ehw (en s)) by (destruct (en s); reflexivity).
+      replace (erem (set_eleft _ (en s))) with (erem (en s)) by (destruct (en s); reflexivity).
+      destruct (elems_pieces c k (ehw (en s)) _) as [ps|]; [|reflexivity]. f_equal.
+      unfold s', upd_en. rewrite emit_pieces_set_en, set_en_set_en. f_equal; destruct (en s); reflexivity.
+    + rewrite Hen. destruct (en s); exact Ek.
+    + rewrite firstn_length. lia.
+    + rewrite Hen. destruct (en s); exact Hj.
+    + rewrite Hen. destruct (en s); exact Hr.
+Qed.
+
+Lemma erem_eng_upd e r h l : erem (eng_upd e r h l) = r. Proof. destruct e; reflexivity. Qed.
+Lemma ehw_eng_upd e r h l : ehw (eng_upd e r h l) = h. Proof. destruct e; reflexivity. Qed.
+Lemma eleft_eng_upd e r h l : eleft (eng_upd e r h l) = l. Proof. destruct e; reflexivity. Qed.
+Lemma emore_eng_upd e r h l : emore (eng_upd e r h l) = emore e. Proof. destruct e; reflexivity. Qed.
+Lemma ek_eng_upd e r h l : ek (eng_upd e r h l) = ek e. Proof. destruct e; reflexivity. Qed.
+Lemma ebuf_eng_upd e r h l : ebuf (eng_upd e r h l) = ebuf e. Proof. destruct e; reflexivity. Qed.
+Lemma ecomp_eng_upd e r h l : ecomp (eng_upd e r h l) = ecomp e. Proof. destruct e; reflexivity. Qed.
+Lemma eouter_eng_upd e r h l : eouter (eng_upd e r h l) = eouter e. Proof. destruct e; reflexivity. Qed.
+Lemma eng_upd_upd e r h l r' h' l' : eng_upd (eng_upd e r h l) r' h' l' = eng_upd e r' h' l'. Proof. destruct e; reflexivity. Qed.
+
+Lemma eng_upd_same e : eng_upd e (erem e) (ehw e) (eleft e) = e.
+Proof. destruct e; reflexivity. Qed.
+
+(* The carry-over lemma: one AddArrayData call on a numeric array writes exactly
+   the elements completed by [leftover ++ data] and keeps the unfinished rest. *)
+Lemma add_data_num c k d s E' L' :
+  ek (en s) = KNum k -> (length (eleft (en s)) < nk_width k)%nat ->
+  grp (nk_width k) (eleft (en s)) d = (E', L') ->
+  N.of_nat (length E') <= erem (en s) -> erem (en s) < 2 ^ 64 ->
+  (L' <> [] -> N.of_nat (length E') < erem (en s)) ->
+  add_data c d s =
+  match elems_pieces c k (ehw (en s)) E' with
+  | None => None
+  | Some ps => finish_if_done (set_en (eng_upd (en s) (erem (en s) - N.of_nat (length E')) (ehw (en s) || nonempty E') L')
+                                      (emit_pieces ps s))
+  end.
+Proof.
+  intros Ek HL Hg Hj Hr Hpart. pose proof (nk_width_pos k) as Hw.
+  rewrite add_data_unfold, Ek. unfold add_data_bytes. cbn [ak_width].
+  destruct (1 <? nk_width k)%nat eqn:E1.
+  - apply Nat.ltb_lt in E1. cbv zeta.
+    destruct (eleft (en s)) as [|l0 lo] eqn:El.
+    + apply (split_tail_num c k d s E' L' Ek E1 El Hg Hj Hr).
+    + assert (HLne : l0 :: lo <> []) by discriminate. remember (l0 :: lo) as L eqn:HeqL. clear HeqL l0 lo.
+      assert (HLd : L <> []) by exact HLne.
+      destruct L as [|x0 L0] eqn:EL0; [congruence|]. rewrite <- EL0 in *. clear EL0 x0 L0.
+      assert (E2 : (nk_width k <? length L)%nat = false) by (apply Nat.ltb_ge; lia). rewrite E2.
+      destruct (length d <? nk_width k - length L)%nat eqn:E3.
+      * apply Nat.ltb_lt in E3. rewrite grp_short in Hg by lia. injection Hg as <- <-.
+        cbn [elems_pieces length nonempty emit_pieces fold_left]. rewrite N.sub_0_r, orb_false_r.
+        unfold finish_if_done. cbn [en set_en].
+        rewrite erem_eng_upd.
+        assert (Hz : erem (en s) =? 0 = false).
+        { apply N.eqb_neq. assert (H : L ++ d <> []) by (destruct L; [congruence | discriminate]). specialize (Hpart H). cbn in Hpart. lia. }
+        rewrite Hz. cbn [andb]. reflexivity.
+      * apply Nat.ltb_ge in E3. set (fill := (nk_width k - length L)%nat) in *.
+        assert (Hf : length (firstn fill d) = fill) by (rewrite firstn_length; lia).
+        rewrite <- (firstn_skipn fill d) in Hg. rewrite grp_app in Hg.
+        rewrite (grp_exact (nk_width k) (firstn fill d) L) in Hg;
+          [| lia | intro Z; rewrite Z in Hf; cbn in Hf; lia].
+        destruct (grp (nk_width k) [] (skipn fill d)) as [Eb Lb] eqn:Hg2. injection Hg as <- <-.
+        set (e1 := L ++ firstn fill d) in *.
+        assert (He1 : length e1 = (1 * nk_width k)%nat) by (unfold e1; rewrite app_length; lia).
+        unfold add_elems. rewrite Ek.
+        rewrite (split_elems_chop (nk_width k) 1 Hw (length e1) e1 He1) by lia.
+        cbn [chop]. rewrite firstn_all2 by lia. rewrite emit_elems_pieces.
+        cbn [elems_pieces app length nonempty]. 
+        destruct (num_elem c k e1) as [[t dd]|]; [|reflexivity].
+        cbn [bind]. rewrite orb_true_r.
+        match goal with |- split_tail_of _ _ _ (upd_en _ (set_en _ (emit_pieces ?P s))) = _ => set (p1 := P) end.
+        set (s1 := set_en (set_ehw true (en s)) (emit_pieces p1 s)).
+        match goal with |- split_tail_of _ _ _ ?S = _ => set (s2 := S) end.
+        cbn [length] in Hj, Hpart.
+        assert (Hr1 : wrap64 (Z.of_N (erem (en s)) - 1) = erem (en s) - 1).
+        { change 1%Z with (Z.of_nat 1). rewrite (wrap64_sub (erem (en s)) 1 Hr); [reflexivity | lia]. }
+        assert (Hen2 : en s2 = eng_upd (en s) (erem (en s) - 1) true []).
+        { unfold s2, upd_en, s1. cbn [en set_en]. 
+          replace (erem (set_ehw true (en s))) with (erem (en s)) by (destruct (en s); reflexivity).
+          rewrite Hr1. destruct (en s); reflexivity. }
+        rewrite (split_tail_num c k (skipn fill d) s2 Eb Lb).
+        -- rewrite Hen2. 
+           replace (ehw (eng_upd (en s) (erem (en s) - 1) true [])) with true by (destruct (en s); reflexivity).
+           replace (erem (eng_upd (en s) (erem (en s) - 1) true [])) with (erem (en s) - 1) by (destruct (en s); reflexivity).
+           destruct (elems_pieces c k true Eb) as [ps2|]; [|reflexivity]. f_equal.
+           unfold s2, upd_en, s1. rewrite !emit_pieces_set_en, !set_en_set_en.
+           f_equal.
+           ++ cbn [orb]. replace (erem (en s) - N.of_nat (S (length Eb))) with (erem (en s) - 1 - N.of_nat (length Eb)) by lia.
+              destruct (en s); reflexivity.
+           ++ unfold p1. rewrite <- emit_pieces_app, <- app_assoc. reflexivity.
+        -- rewrite Hen2. destruct (en s); exact Ek.
+        -- exact E1.
+        -- rewrite Hen2. destruct (en s); reflexivity.
+        -- exact Hg2.
+        -- rewrite Hen2. destruct (en s); cbn in *. lia.
+        -- rewrite Hen2. destruct (en s); cbn in *. lia.
+  - apply Nat.ltb_ge in E1. assert (W1 : nk_width k = 1%nat) by lia.
+    assert (El : eleft (en s) = []) by (destruct (eleft (en s)); [reflexivity | cbn in HL; lia]).
+    rewrite El in Hg. rewrite (grp_nil_split _ d Hw) in Hg. rewrite W1 in Hg.
+    rewrite Nat.mod_1_r, Nat.sub_0_r, Nat.div_1_r, firstn_all, skipn_all in Hg. injection Hg as <- <-.
+    rewrite chop_length in Hj |- *. rewrite nonempty_chop.
+    rewrite (tail_of_num c k (length d) d s Ek) by (try assumption; lia).
+    rewrite W1, El. reflexivity.
+Qed.
+
+Lemma grp_lengths w d : (0 < w)%nat -> forall L E L', (length L < w)%nat -> grp w L d = (E, L') ->
+  (length L + length d = length E * w + length L')%nat /\ (length L' < w)%nat.
+Proof.
+  intro Hw. induction d as [|b d IH]; intros L E L' HL Hg; cbn [grp] in Hg.
+  - injection Hg as <- <-. cbn. lia.
+  - destruct (length (L ++ [b]) =? w)%nat eqn:Eq.
+    + apply Nat.eqb_eq in Eq. destruct (grp w [] d) as [es l] eqn:Hg2. injection Hg as <- <-.
+      destruct (IH [] es l) as [H1 H2]; [cbn; lia | exact Hg2 |].
+      rewrite app_length in Eq. cbn [length] in *. lia.
+    + apply Nat.eqb_neq in Eq. rewrite app_length in Eq. cbn [length] in Eq.
+      destruct (IH (L ++ [b]) E L') as [H1 H2]; [rewrite app_length; cbn; lia | exact Hg |].
+      rewrite app_length in H1. cbn [length] in *. lia.
+Qed.
+
+Lemma mul_rem_unique (a b w l : nat) : (0 < w)%nat -> (l < w)%nat -> (a * w + l = b * w)%nat -> l = 0%nat /\ a = b.
+Proof.
+  intros Hw Hl H.
+  assert (E : l = 0%nat).
+  { assert (H1 : ((a * w + l) mod w = l)%nat) by (rewrite Nat.add_comm, Nat.mod_add by lia; apply Nat.mod_small; exact Hl).
+    rewrite H, Nat.mod_mul in H1 by lia. lia. }
+  split; [exact E|]. subst l. rewrite Nat.add_0_r in H. apply Nat.mul_cancel_r in H; lia.
+Qed.
+
+Lemma concat_last_pos (l : list bytes) : last l [] <> [] -> (0 < length (concat l))%nat.
+Proof.
+  induction l as [|a l IH]; cbn [last concat]; [congruence|]. intro H. rewrite app_length.
+  destruct l as [|b l]; [destruct a; [congruence | cbn; lia]|]. specialize (IH H). lia.
+Qed.
+
+(* the engine while a numeric array is open: kind, leftover, remaining, more *)
+Definition num_open (k : nkind) (s : est) (r : N) (m : bool) (L : bytes) : Prop :=
+  ek (en s) = KNum k /\ erem (en s) = r /\ emore (en s) = m /\ eleft (en s) = L.
+
+Definition data_events (ds : list bytes) : list event := map EArrayData ds.
+
+(* All data events of one chunk of a numeric array. *)
+Lemma run_data_num c k : forall ds s r m L E L',
+  num_open k s r m L -> r < 2 ^ 64 -> (length L < nk_width k)%nat ->
+  ds <> [] -> last ds [] <> [] ->
+  (length L + length (concat ds) = N.to_nat r * nk_width k)%nat ->
+  grp (nk_width k) L (concat ds) = (E, L') ->
+  run c s (data_events ds) =
+  match elems_pieces c k (ehw (en s)) E with
+  | None => None
+  | Some ps =>
+      let s' := set_en (eng_upd (en s) 0 (ehw (en s) || nonempty E) []) (emit_pieces ps s) in
+      if m then Some s' else end_array s'
+  end.
+Proof.
+  pose proof (nk_width_pos k) as Hw.
+  induction ds as [|d rest IH]; intros s r m L E L' Hop Hr HL Hne Hlast Hlen Hg; [congruence|].
+  destruct Hop as (Ek & Er & Em & El).
+  cbn [data_events map run]. cbn [step].
+  destruct rest as [|d2 rest].
+  - (* the last data event of the chunk *)
+    cbn [concat] in Hlen, Hg. rewrite app_nil_r in Hlen, Hg. cbn [last] in Hlast.
+    destruct (grp_lengths _ d Hw L E L' HL Hg) as [H1 H2].
+    assert (HE : length E = N.to_nat r /\ L' = []).
+    { destruct (mul_rem_unique (length E) (N.to_nat r) (nk_width k) (length L') Hw H2) as [Z1 Z2]; [lia|].
+      split; [exact Z2 | destruct L'; [reflexivity | discriminate Z1]]. }
+    destruct HE as [HE ->].
+    rewrite (add_data_num c k d s E []); try assumption; try (rewrite El; assumption); try (rewrite Er; lia); [|congruence].
+    destruct (elems_pieces c k (ehw (en s)) E) as [ps|]; [|reflexivity].
+    cbn [bind run]. rewrite Er, HE, N2Nat.id, N.sub_diag.
+    unfold finish_if_done. cbn [en set_en]. rewrite erem_eng_upd, emore_eng_upd, Em. cbn [N.eqb andb].
+    destruct m; cbn [negb]; [reflexivity|]. destruct (end_array _); reflexivity.
+  - (* more data events follow *)
+    remember (d2 :: rest) as rest' eqn:Hr'.
+    assert (Hne' : rest' <> []) by (subst rest'; discriminate).
+    assert (Hlast' : last rest' [] <> []) by (subst rest'; exact Hlast).
+    clear Hr' d2 rest Hlast Hne.
+    pose proof (concat_last_pos rest' Hlast') as Hrest.
+    cbn [concat] in Hlen, Hg. rewrite app_length in Hlen. rewrite grp_app in Hg.
+    destruct (grp (nk_width k) L d) as [E1 L1] eqn:Hg1.
+    destruct (grp (nk_width k) L1 (concat rest')) as [E2 L2] eqn:Hg2. injection Hg as <- <-.
+    destruct (grp_lengths _ d Hw L E1 L1 HL Hg1) as [H1 H2].
+    assert (HE1 : (length E1 < N.to_nat r)%nat).
+    { apply (Nat.mul_lt_mono_pos_r (nk_width k)); [exact Hw|]. lia. }
+    rewrite (add_data_num c k d s E1 L1 Ek); [| rewrite El; exact HL | rewrite El; exact Hg1 | rewrite Er; lia | rewrite Er; exact Hr | rewrite Er; lia].
+    rewrite elems_pieces_app.
+    destruct (elems_pieces c k (ehw (en s)) E1) as [ps1|]; [|reflexivity].
+    set (s1 := set_en _ (emit_pieces ps1 s)).
+    assert (Hen1 : en s1 = eng_upd (en s) (erem (en s) - N.of_nat (length E1)) (ehw (en s) || nonempty E1) L1) by reflexivity.
+    unfold finish_if_done. rewrite Hen1, erem_eng_upd, Er.
+    assert (Hz : (r - N.of_nat (length E1) =? 0) = false) by (apply N.eqb_neq; lia).
+    rewrite Hz. cbn [andb bind].
+    change (map EArrayData rest') with (data_events rest').
+    rewrite (IH s1 (r - N.of_nat (length E1)) m L1 E2 L2); try assumption.
+    + rewrite Hen1, ehw_eng_upd.
+      destruct (elems_pieces c k (ehw (en s) || nonempty E1) E2) as [ps2|]; [|reflexivity].
+      cbv zeta. rewrite eng_upd_upd.
+      replace (ehw (en s) || nonempty E1 || nonempty E2) with (ehw (en s) || nonempty (E1 ++ E2))
+        by (destruct E1; cbn [nonempty app]; [rewrite orb_false_r; reflexivity | rewrite !orb_true_r; reflexivity]).
+      unfold s1. rewrite emit_pieces_set_en, set_en_set_en, <- emit_pieces_app. reflexivity.
+    + unfold num_open. rewrite Hen1, ek_eng_upd, erem_eng_upd, emore_eng_upd, eleft_eng_upd, Er. tauto.
+    + lia.
+    + rewrite N2Nat.inj_sub, Nat2N.id, Nat.mul_sub_distr_r. lia.
+Qed.
+
+(* ------------------------------------------------------------------ *)
+(** * The engine on string-like, media / custom-binary and bit arrays *)
+
+Lemma emit_cd_cd b1 d1 b2 d2 s : emit_cd b2 d2 (emit_cd b1 d1 s) = emit_cd (b1 ++ b2) (d1 + d2) s.
+Proof.
+  destruct s. unfold emit_cd. cbn. f_equal; [|lia].
+  rewrite !rev_append_rev, rev_app_distr, app_assoc. reflexivity.
+Qed.
+
+Lemma hexbytes_app a b : a <> [] -> b <> [] -> hexbytes (a ++ b) = hexbytes a ++ 32 :: hexbytes b.
+Proof.
+  intros Ha Hb. induction a as [|x a IH]; [congruence|].
+  destruct a as [|y a].
+  - cbn [app hexbytes]. destruct b; [congruence|]. reflexivity.
+  - change ((x :: y :: a) ++ b) with (x :: (y :: a) ++ b). 
+    change (hexbytes (x :: (y :: a) ++ b)) with (hex2 x ++ 32 :: hexbytes ((y :: a) ++ b)).
+    rewrite IH by discriminate.
+    change (hexbytes (x :: y :: a)) with (hex2 x ++ 32 :: hexbytes (y :: a)).
+    rewrite <- app_assoc. reflexivity.
+Qed.
+
+Definition open_as (k : akind) (s : est) (r : N) (m : bool) : Prop :=
+  ek (en s) = k /\ erem (en s) = r /\ emore (en s) = m.
+
+Definition set_rem0 (e : eng) : eng := set_erem 0 e.
+
+Lemma tail_of_w1 c k d s :
+  ek (en s) = k -> ak_width k = 1%nat -> k <> KNil -> k <> KBit -> add_data c d s = tail_of c 1 d s.
+Proof.
+  intros Ek Hw H1 H2. rewrite add_data_unfold, Ek.
+  destruct k; try congruence; unfold add_data_bytes; rewrite Hw; reflexivity.
+Qed.
+
+(* string-like arrays: the data is only buffered *)
+Lemma run_data_str c : forall ds s r m,
+  open_as KStr s r m -> r < 2 ^ 64 -> ds <> [] -> last ds [] <> [] -> length (concat ds) = N.to_nat r ->
+  run c s (data_events ds) =
+  let s' := set_en (set_ebuf (ebuf (en s) ++ concat ds) (set_rem0 (en s))) s in
+  if m then Some s' else end_array s'.
+Proof.
+  induction ds as [|d rest IH]; intros s r m (Ek & Er & Em) Hr Hne Hlast Hlen; [congruence|].
+  cbn [data_events map run step].
+  rewrite (tail_of_w1 c KStr d s Ek) by (reflexivity || discriminate).
+  unfold tail_of, add_elems. rewrite Ek. cbn [bind]. rewrite Nat.div_1_r.
+  set (s1 := upd_en _ (upd_en _ s)).
+  assert (Hlen' : (length d + length (concat rest) = N.to_nat r)%nat) by (cbn [concat] in Hlen; rewrite app_length in Hlen; exact Hlen).
+  assert (Hen1 : en s1 = set_erem (r - N.of_nat (length d)) (set_ebuf (ebuf (en s) ++ d) (en s))).
+  { unfold s1, upd_en. cbn [en set_en].
+    replace (erem (set_ebuf (ebuf (en s) ++ d) (en s))) with (erem (en s)) by (destruct (en s); reflexivity).
+    rewrite Er, (wrap64_sub r (length d) Hr) by lia. reflexivity. }
+  unfold finish_if_done. rewrite Hen1.
+  replace (erem (set_erem _ _)) with (r - N.of_nat (length d)) by (destruct (en s); reflexivity).
+  replace (emore (set_erem _ (set_ebuf _ (en s)))) with m by (destruct (en s); cbn in *; congruence).
+  destruct rest as [|d2 rest].
+  - cbn [concat] in *. rewrite app_nil_r in *. cbn [length] in Hlen'.
+    assert (Hz : r - N.of_nat (length d) =? 0 = true) by (apply N.eqb_eq; lia). rewrite Hz. cbn [andb run].
+    assert (Hs : s1 = set_en (set_ebuf (ebuf (en s) ++ d) (set_rem0 (en s))) s).
+    { unfold s1, upd_en. cbn [en set_en]. rewrite set_en_set_en. f_equal.
+      replace (erem (set_ebuf (ebuf (en s) ++ d) (en s))) with (erem (en s)) by (destruct (en s); reflexivity).
+      rewrite Er, (wrap64_sub r (length d) Hr) by lia.
+      replace (r - N.of_nat (length d)) with 0 by lia. destruct (en s); reflexivity. }
+    rewrite <- Hs. destruct m; cbn [negb]; [reflexivity | destruct (end_array s1); reflexivity].
+  - remember (d2 :: rest) as rest' eqn:Hr'.
+    assert (Hne' : rest' <> []) by (subst rest'; discriminate).
+    assert (Hlast' : last rest' [] <> []) by (subst rest'; exact Hlast).
+    clear Hr' d2 rest Hlast Hne.
+    pose proof (concat_last_pos rest' Hlast') as Hrest.
+    assert (Hz : r - N.of_nat (length d) =? 0 = false) by (apply N.eqb_neq; lia). rewrite Hz. cbn [andb bind].
+    change (map EArrayData rest') with (data_events rest').
+    rewrite (IH s1 (r - N.of_nat (length d)) m); try assumption; try lia.
+    + cbv zeta. rewrite Hen1. unfold s1, upd_en. rewrite !set_en_set_en.
+      cbn [concat]. replace (ebuf (set_erem _ (set_ebuf (ebuf (en s) ++ d) (en s)))) with (ebuf (en s) ++ d) by (destruct (en s); reflexivity).
+      rewrite <- app_assoc.
+      replace (set_ebuf (ebuf (en s) ++ d ++ concat rest') (set_rem0 (set_erem (r - N.of_nat (length d)) (set_ebuf (ebuf (en s) ++ d) (en s)))))
+        with (set_ebuf (ebuf (en s) ++ d ++ concat rest') (set_rem0 (en s))) by (destruct (en s); reflexivity).
+      reflexivity.
+    + unfold open_as. rewrite Hen1. destruct (en s); cbn in *. repeat split; congruence.
+Qed.
+
+Lemma ehw_set_erem x e : ehw (set_erem x e) = ehw e. Proof. destruct e; reflexivity. Qed.
+Lemma ehw_set_ehw b e : ehw (set_ehw b e) = b. Proof. destruct e; reflexivity. Qed.
+
+Lemma emit_cd_set_en b d e s : emit_cd b d (set_en e s) = set_en e (emit_cd b d s).
+Proof. reflexivity. Qed.
+
+Lemma concat_nonempty (l : list bytes) : l <> [] -> Forall (fun d => d <> []) l -> concat l <> [].
+Proof.
+  intros Hl HF. destruct l as [|a l]; [congruence|]. inversion HF; subst. cbn. destruct a; [congruence | discriminate].
+Qed.
+
+(* Column advance of the data events of one chunk: one per separator *)
+Definition hex_dz (hw : bool) (ds : list bytes) : Z := ((if hw then 1 else 0) + Z.of_nat (length ds) - 1)%Z.
+
+(* media / custom binary: every data event writes its bytes, separated by one space from the previous event *)
+Lemma run_data_hex c : forall ds s r m,
+  open_as KHex s r m -> r < 2 ^ 64 -> ds <> [] -> Forall (fun d => d <> []) ds -> length (concat ds) = N.to_nat r ->
+  run c s (data_events ds) =
+  let s' := set_en (set_ehw true (set_rem0 (en s)))
+                   (emit_cd ((if ehw (en s) then [32] else []) ++ hexbytes (concat ds)) (hex_dz (ehw (en s)) ds) s) in
+  if m then Some s' else end_array s'.
+Proof.
+  induction ds as [|d rest IH]; intros s r m (Ek & Er & Em) Hr Hne HF Hlen; [congruence|].
+  pose proof (Forall_inv HF) as Hd. pose proof (Forall_inv_tail HF) as HF'. cbn beta in Hd.
+  cbn [data_events map run step].
+  rewrite (tail_of_w1 c KHex d s Ek) by (reflexivity || discriminate).
+  unfold tail_of, add_elems. rewrite Ek. cbn [bind]. rewrite Nat.div_1_r.
+  assert (Hlen' : (length d + length (concat rest) = N.to_nat r)%nat) by (cbn [concat] in Hlen; rewrite app_length in Hlen; exact Hlen).
+  set (pre := if ehw (en s) then [32] else []).
+  set (dz0 := if ehw (en s) then 1%Z else 0%Z).
+  set (s1 := upd_en _ (emit_raw _ (space_if_hw s))).
+  assert (Hs1 : s1 = set_en (set_erem (r - N.of_nat (length d)) (set_ehw true (en s))) (emit_cd (pre ++ hexbytes d) dz0 s)).
+  { unfold s1, pre, dz0. clear - Er Hr Hlen'.
+    destruct s as [ro co io sto cho0 [ek0 er0 hw0 em0 el0 eb0 ec0 eo0] di ba]. cbn in Er. subst er0.
+    unfold upd_en, space_if_hw, upd_en, emit_raw, emit_nolf, emit_cd, set_en. cbn.
+    destruct hw0; cbn; rewrite (wrap64_sub r (length d) Hr) by lia; f_equal; lia. }
+  assert (Hen1 : en s1 = set_erem (r - N.of_nat (length d)) (set_ehw true (en s))) by (rewrite Hs1; reflexivity).
+  unfold finish_if_done. rewrite Hen1.
+  replace (erem (set_erem _ _)) with (r - N.of_nat (length d)) by (destruct (en s); reflexivity).
+  replace (emore (set_erem _ (set_ehw true (en s)))) with m by (destruct (en s); cbn in *; congruence).
+  destruct rest as [|d2 rest].
+  - replace (hex_dz (ehw (en s)) [d]) with dz0 by (unfold hex_dz, dz0; cbn [length]; destruct (ehw (en s)); lia).
+    cbn [concat] in *. rewrite app_nil_r in *. cbn [length] in Hlen'.
+    assert (Hz : r - N.of_nat (length d) =? 0 = true) by (apply N.eqb_eq; lia). rewrite Hz. cbn [andb run].
+    assert (Hs : s1 = set_en (set_ehw true (set_rem0 (en s))) (emit_cd (pre ++ hexbytes d) dz0 s)).
+    { rewrite Hs1. f_equal. replace (r - N.of_nat (length d)) with 0 by lia. destruct (en s); reflexivity. }
+    rewrite <- Hs. destruct m; cbn [negb]; [reflexivity | destruct (end_array s1); reflexivity].
+  - remember (d2 :: rest) as rest' eqn:Hr'.
+    assert (Hne' : rest' <> []) by (subst rest'; discriminate).
+    clear Hr' d2 rest Hne.
+    pose proof (concat_nonempty rest' Hne' HF') as Hcr.
+    assert (Hrest : (0 < length (concat rest'))%nat) by (destruct (concat rest'); [congruence | cbn; lia]).
+    assert (Hz : r - N.of_nat (length d) =? 0 = false) by (apply N.eqb_neq; lia). rewrite Hz. cbn [andb bind].
+    change (map EArrayData rest') with (data_events rest').
+    assert (Hrun := IH s1 (r - N.of_nat (length d)) m).
+    rewrite Hrun; try assumption; try lia;
+      [| unfold open_as; rewrite Hen1; destruct (en s); cbn in *; repeat split; congruence].
+    replace (hex_dz (ehw (en s)) (d :: rest')) with (dz0 + hex_dz true rest')%Z
+      by (unfold hex_dz, dz0; cbn [length]; destruct (ehw (en s)); lia).
+    cbv zeta. rewrite Hen1.
+    rewrite ehw_set_erem, ehw_set_ehw.
+    rewrite Hs1, emit_cd_set_en, set_en_set_en, emit_cd_cd.
+    cbn [concat]. rewrite (hexbytes_app d (concat rest') Hd Hcr).
+    replace (set_ehw true (set_rem0 (set_erem (r - N.of_nat (length d)) (set_ehw true (en s))))) with (set_ehw true (set_rem0 (en s)))
+      by (destruct (en s); reflexivity).
+    rewrite <- !app_assoc. reflexivity.
+Qed.
+
+(* ---- bit arrays ---- *)
+
+Definition bchar (b : bool) : N := if b then 49 else 48.
+Definition bits_text (l : list bool) : bytes := map bchar l.
+
+Lemma byte_bits_length b : length (byte_bits b) = 8%nat.
+Proof. reflexivity. Qed.
+
+Lemma bytes_bits_length d : length (bytes_bits d) = (8 * length d)%nat.
+Proof. induction d as [|b d IH]; [reflexivity|]. unfold bytes_bits in *. cbn [flat_map]. rewrite app_length, IH, byte_bits_length. cbn [length]. lia. Qed.
+
+Lemma bytes_bits_app a b : bytes_bits (a ++ b) = bytes_bits a ++ bytes_bits b.
+Proof. unfold bytes_bits. apply flat_map_app. Qed.
+
+Lemma firstn_seq n : forall a m, firstn n (seq a m) = seq a (Nat.min n m).
+Proof.
+  induction n as [|n IH]; intros a m; [reflexivity|]. destruct m as [|m]; [reflexivity|].
+  cbn [seq firstn Nat.min]. rewrite IH. reflexivity.
+Qed.
+
+Lemma bits_of_spec b n : (n <= 8)%nat -> bits_of b n = bits_text (firstn n (byte_bits b)).
+Proof.
+  intro Hn. unfold bits_of, bits_text, byte_bits. rewrite firstn_map, map_map, firstn_seq.
+  replace (Nat.min n 8) with n by lia. apply map_ext. intro i. reflexivity.
+Qed.
+
+Lemma bool_data_spec d : forall r,
+  bool_data r d = (bits_text (firstn (N.to_nat r) (bytes_bits d)), r - N.min r (8 * N.of_nat (length d))).
+Proof.
+  induction d as [|b d IH]; intro r; cbn [bool_data].
+  - cbn. rewrite firstn_nil. f_equal. lia.
+  - change (bytes_bits (b :: d)) with (byte_bits b ++ bytes_bits d).
+    destruct (8 <=? r) eqn:E8.
+    + apply N.leb_le in E8. rewrite IH. f_equal.
+      * rewrite firstn_app. rewrite (firstn_all2 (byte_bits b)) by (rewrite byte_bits_length; lia). rewrite byte_bits_length.
+        unfold bits_text. rewrite map_app. f_equal; try (apply (bits_of_spec b 8); lia).
+        replace (N.to_nat r - 8)%nat with (N.to_nat (r - 8)) by lia. reflexivity.
+      * cbn [length]. lia.
+    + apply N.leb_gt in E8. destruct (0 <? r) eqn:E0.
+      * apply N.ltb_lt in E0. f_equal; [|cbn [length]; lia].
+        rewrite firstn_app, byte_bits_length. replace (N.to_nat r - 8)%nat with 0%nat by lia.
+        cbn [firstn]. rewrite app_nil_r. apply bits_of_spec. lia.
+      * apply N.ltb_ge in E0. assert (r = 0) by lia. subst r. reflexivity.
+Qed.
+
+Lemma ceil8_bounds r : r <= 8 * ((r + 7) / 8) /\ 8 * ((r + 7) / 8) <= r + 7.
+Proof. pose proof (N.div_mod (r + 7) 8). pose proof (N.mod_lt (r + 7) 8). lia. Qed.
+
+Lemma ceil8_sub r a : 8 * a <= r -> (r - 8 * a + 7) / 8 = (r + 7) / 8 - a.
+Proof.
+  intro H. pose proof (N.div_mod (r + 7) 8) as D. pose proof (N.mod_lt (r + 7) 8) as M.
+  symmetry. apply (N.div_unique _ 8 _ ((r + 7) mod 8)); lia.
+Qed.
+
+Lemma emit_nolf_nolf a b s : emit_nolf b (emit_nolf a s) = emit_nolf (a ++ b) s.
+Proof. unfold emit_nolf. rewrite emit_cd_cd. f_equal. unfold zlen. rewrite app_length. lia. Qed.
+
+Lemma emit_nolf_set_en b e s : emit_nolf b (set_en e s) = set_en e (emit_nolf b s).
+Proof. reflexivity. Qed.
+
+Lemma run_data_bit c : forall ds s r m,
+  open_as KBit s r m -> r < 2 ^ 64 -> 0 < r -> ds <> [] -> last ds [] <> [] ->
+  length (concat ds) = N.to_nat ((r + 7) / 8) ->
+  run c s (data_events ds) =
+  let s' := set_en (set_rem0 (en s)) (emit_nolf (bits_text (firstn (N.to_nat r) (bytes_bits (concat ds)))) s) in
+  if m then Some s' else end_array s'.
+Proof.
+  induction ds as [|d rest IH]; intros s r m (Ek & Er & Em) Hr Hpos Hne Hlast Hlen; [congruence|].
+  cbn [data_events map run step]. rewrite add_data_unfold, Ek, Er, bool_data_spec.
+  pose proof (ceil8_bounds r) as [B1 B2].
+  assert (Hlen' : (length d + length (concat rest) = N.to_nat ((r + 7) / 8))%nat) by (cbn [concat] in Hlen; rewrite app_length in Hlen; exact Hlen).
+  set (o := bits_text _). set (r' := r - _).
+  set (s1 := upd_en (set_erem r') (emit_nolf o s)).
+  assert (Hen1 : en s1 = set_erem r' (en s)) by reflexivity.
+  unfold finish_if_done. rewrite Hen1.
+  replace (erem (set_erem r' (en s))) with r' by (destruct (en s); reflexivity).
+  replace (emore (set_erem r' (en s))) with m by (destruct (en s); cbn in *; congruence).
+  destruct rest as [|d2 rest].
+  - cbn [concat] in *. rewrite app_nil_r in *. cbn [length] in Hlen'.
+    assert (Hz : r' =? 0 = true) by (apply N.eqb_eq; unfold r'; lia). rewrite Hz. cbn [andb bind run].
+    assert (Hs : s1 = set_en (set_rem0 (en s)) (emit_nolf o s)).
+    { unfold s1, upd_en. f_equal. apply N.eqb_eq in Hz. rewrite Hz. reflexivity. }
+    change (bits_text (firstn (N.to_nat r) (bytes_bits d))) with o.
+    rewrite <- Hs. destruct m; cbn [negb]; [reflexivity | destruct (end_array s1); reflexivity].
+  - remember (d2 :: rest) as rest' eqn:Hr'.
+    assert (Hne' : rest' <> []) by (subst rest'; discriminate).
+    assert (Hlast' : last rest' [] <> []) by (subst rest'; exact Hlast).
+    clear Hr' d2 rest Hlast Hne.
+    pose proof (concat_last_pos rest' Hlast') as Hrest.
+    assert (Hd8 : 8 * N.of_nat (length d) < r) by lia.
+    assert (Hr' : r' = r - 8 * N.of_nat (length d)) by (unfold r'; lia).
+    assert (Hz : r' =? 0 = false) by (apply N.eqb_neq; lia). rewrite Hz. cbn [andb bind].
+    change (map EArrayData rest') with (data_events rest').
+    rewrite (IH s1 r' m); try assumption; try lia.
+    + cbv zeta. rewrite Hen1. unfold s1, upd_en. rewrite !emit_nolf_set_en, !set_en_set_en.
+      replace (set_rem0 (set_erem r' (en s))) with (set_rem0 (en s)) by (destruct (en s); reflexivity).
+      rewrite emit_nolf_nolf.
+      replace (o ++ bits_text (firstn (N.to_nat r') (bytes_bits (concat rest'))))
+        with (bits_text (firstn (N.to_nat r) (bytes_bits (concat (d :: rest'))))); [reflexivity|].
+      cbn [concat]. rewrite bytes_bits_app, firstn_app, bytes_bits_length. unfold bits_text. rewrite map_app.
+      unfold o, bits_text. f_equal. f_equal. f_equal. lia.
+    + unfold open_as. rewrite Hen1. destruct (en s); cbn in *. repeat split; congruence.
+Qed.
+
+(* ------------------------------------------------------------------ *)
+(** * Chunks *)
+
+Lemma bind_ret {A} (o : option A) : bind o (fun x => Some x) = o.
+Proof. destruct o; reflexivity. Qed.
+
+Lemma bind_assoc {A B C} (o : option A) (f : A -> option B) (g : B -> option C) :
+  bind (bind o f) g = bind o (fun x => bind (f x) g).
+Proof. destruct o; reflexivity. Qed.
+
+Section Chunks.
+  Variables (c : ccfg) (strict : bool) (k : akind).
+  Variable inv : est -> Prop.
+  (* the effect of one whole chunk (header and data events) short of ending the array *)
+  Variable pstep : est -> chunk -> option est.
+  Hypothesis Hchunk : forall s ch, inv s -> chunk_wf strict k ch ->
+    run c s (chunk_events ch) =
+    match pstep s ch with None => None | Some s' => if snd (fst ch) then Some s' else end_array s' end.
+  Hypothesis Hinv : forall s ch s', inv s -> chunk_wf strict k ch -> pstep s ch = Some s' -> inv s'.
+
+  Fixpoint psteps (s : est) (cs : list chunk) : option est :=
+    match cs with [] => Some s | ch :: r => bind (pstep s ch) (fun s' => psteps s' r) end.
+
+  Lemma run_chunks cs : forall s, inv s -> chunks_wf strict k cs ->
+    run c s (chunks_events cs) = bind (psteps s cs) end_array.
+  Proof.
+    induction cs as [|ch r IH]; intros s Hi Hwf; [destruct Hwf|].
+    cbn [chunks_wf] in Hwf. destruct Hwf as [Hch Hrest].
+    unfold chunks_events. cbn [flat_map]. fold (chunks_events r). rewrite run_app, (Hchunk s ch Hi Hch).
+    cbn [psteps]. destruct (pstep s ch) as [s'|] eqn:Ep; [|reflexivity]. cbn [bind].
+    destruct r as [|ch2 r].
+    - rewrite Hrest. cbn [chunks_events flat_map psteps bind run]. apply bind_ret.
+    - destruct Hrest as [Hm Hrest]. rewrite Hm. cbn [bind]. apply IH; [eapply Hinv; eauto | exact Hrest].
+  Qed.
+End Chunks.
+
+Lemma begin_chunk_pos n m s : 0 < n -> begin_chunk n m s = Some (upd_en (fun e => set_emore m (set_erem n e)) s).
+Proof. intro H. unfold begin_chunk. assert (E : n =? 0 = false) by (apply N.eqb_neq; lia). rewrite E. reflexivity. Qed.
+
+Lemma begin_chunk_zero m s :
+  begin_chunk 0 m s = let s1 := upd_en (fun e => set_emore m (set_erem 0 e)) s in if m then Some s1 else end_array s1.
+Proof. unfold begin_chunk. cbn [N.eqb andb]. destruct m; reflexivity. Qed.
+
+Lemma run_chunk_events c n m ds s :
+  run c s (chunk_events (n, m, ds)) = bind (begin_chunk n m s) (fun s1 => run c s1 (data_events ds)).
+Proof. reflexivity. Qed.
+
+(* ---- numeric ---- *)
+
+Definition inv_num (k : nkind) (s : est) : Prop := ek (en s) = KNum k /\ eleft (en s) = [].
+
+Definition pstep_num (c : ccfg) (k : nkind) (s : est) (ch : chunk) : option est :=
+  let E := fst (grp (nk_width k) [] (chunk_payload ch)) in
+  match elems_pieces c k (ehw (en s)) E with
+  | None => None
+  | Some ps => Some (set_en (set_emore (snd (fst ch)) (eng_upd (en s) 0 (ehw (en s) || nonempty E) [])) (emit_pieces ps s))
+  end.
+
+Lemma chunk_num c strict k s ch :
+  inv_num k s -> chunk_wf strict (KNum k) ch ->
+  run c s (chunk_events ch) =
+  match pstep_num c k s ch with None => None | Some s' => if snd (fst ch) then Some s' else end_array s' end.
+Proof.
+  intros [Ek El] Hwf. destruct ch as [[n m] ds]. cbn [chunk_wf] in Hwf. destruct Hwf as (Hn & H0 & Hpos & _).
+  rewrite run_chunk_events. unfold pstep_num, chunk_payload. cbn [fst snd].
+  destruct (N.eq_dec n 0) as [->|Hnz].
+  - rewrite (H0 eq_refl). cbn [concat grp fst elems_pieces nonempty emit_pieces fold_left data_events map].
+    rewrite begin_chunk_zero. cbv zeta. rewrite orb_false_r.
+    assert (Hs : upd_en (fun e => set_emore m (set_erem 0 e)) s = set_en (set_emore m (eng_upd (en s) 0 (ehw (en s)) [])) s).
+    { unfold upd_en. f_equal. destruct (en s); cbn in *; subst; reflexivity. }
+    rewrite Hs. destruct m; cbn [bind run]; [reflexivity | apply bind_ret].
+  - assert (Hnp : 0 < n) by lia. destruct (Hpos Hnp) as (Hne & Hlast & Hlen). cbn [chunk_bytes ak_width] in Hlen.
+    rewrite (begin_chunk_pos n m s Hnp). cbn [bind].
+    set (s1 := upd_en _ s).
+    assert (Hen1 : en s1 = set_emore m (set_erem n (en s))) by reflexivity.
+    destruct (grp (nk_width k) [] (concat ds)) as [E L'] eqn:Hg.
+    assert (A1 : num_open k s1 n m []).
+    { unfold num_open. rewrite Hen1. destruct (en s); cbn in *. repeat split; congruence. }
+    assert (A2 : (length (@nil N) < nk_width k)%nat) by (cbn; apply nk_width_pos).
+    assert (A3 : (length (@nil N) + length (concat ds) = N.to_nat n * nk_width k)%nat) by (cbn [length]; lia).
+    rewrite (run_data_num c k ds s1 n m [] E L' A1 Hn A2 Hne Hlast A3 Hg).
+    rewrite Hen1. replace (ehw (set_emore m (set_erem n (en s)))) with (ehw (en s)) by (destruct (en s); reflexivity).
+    cbn [fst]. destruct (elems_pieces c k (ehw (en s)) E) as [ps|]; [|reflexivity].
+    cbv zeta. unfold s1, upd_en. rewrite emit_pieces_set_en, set_en_set_en.
+    replace (eng_upd (set_emore m (set_erem n (en s))) 0 (ehw (en s) || nonempty E) [])
+      with (set_emore m (eng_upd (en s) 0 (ehw (en s) || nonempty E) [])) by (destruct (en s); reflexivity).
+    reflexivity.
+Qed.
+
+Lemma inv_pstep_num c k s ch s' : inv_num k s -> pstep_num c k s ch = Some s' -> inv_num k s'.
+Proof.
+  intros [Ek El] H. unfold pstep_num in H. cbv zeta in H.
+  destruct (elems_pieces _ _ _ _); [|discriminate]. injection H as <-.
+  unfold inv_num. cbn [en set_en]. destruct (en s); cbn in *. split; congruence.
+Qed.
+
+Lemma chunks_wf_forall strict k cs : chunks_wf strict k cs -> Forall (chunk_wf strict k) cs.
+Proof.
+  induction cs as [|ch r IH]; intro H; [constructor|]. cbn [chunks_wf] in H. destruct H as [Hc Hr].
+  constructor; [exact Hc|]. destruct r; [constructor | apply IH; tauto].
+Qed.
+
+Lemma set_en_en s : set_en (en s) s = s.
+Proof. destruct s; reflexivity. Qed.
+
+Lemma payload_len_num strict k ch : chunk_wf strict (KNum k) ch -> length (chunk_payload ch) = (N.to_nat (fst (fst ch)) * nk_width k)%nat.
+Proof.
+  destruct ch as [[n m] ds]. cbn [chunk_wf chunk_payload fst snd]. intros (Hn & H0 & Hpos & _).
+  destruct (N.eq_dec n 0) as [->|Hnz]; [rewrite (H0 eq_refl); reflexivity|].
+  destruct Hpos as (_ & _ & Hlen); [lia|]. exact Hlen.
+Qed.
+
+Lemma psteps_num c strict k : forall cs s,
+  inv_num k s -> Forall (chunk_wf strict (KNum k)) cs ->
+  match psteps (pstep_num c k) s cs, elems_pieces c k (ehw (en s)) (fst (grp (nk_width k) [] (flat_map chunk_payload cs))) with
+  | Some s', Some ps => exists E', s' = set_en E' (emit_pieces ps s) /\ ecomp E' = ecomp (en s) /\ eouter E' = eouter (en s)
+  | None, None => True
+  | _, _ => False
+  end.
+Proof.
+  pose proof (nk_width_pos k) as Hw.
+  induction cs as [|ch r IH]; intros s Hi HF.
+  - cbn. exists (en s). rewrite set_en_en. auto.
+  - pose proof (Forall_inv HF) as Hch. pose proof (Forall_inv_tail HF) as HF'.
+    cbn [psteps flat_map]. rewrite grp_app.
+    rewrite (grp_whole (nk_width k) _ Hw _ (payload_len_num strict k ch Hch)).
+    destruct (grp (nk_width k) [] (flat_map chunk_payload r)) as [E2 L2] eqn:Hg2. cbn [fst].
+    rewrite elems_pieces_app.
+    unfold pstep_num at 1. cbv zeta.
+    rewrite (grp_whole (nk_width k) _ Hw _ (payload_len_num strict k ch Hch)). cbn [fst].
+    set (E1 := chop _ _ _).
+    destruct (elems_pieces c k (ehw (en s)) E1) as [ps1|] eqn:Ep1; [|exact I]. cbn [bind].
+    set (s1 := set_en _ (emit_pieces ps1 s)).
+    assert (Hi1 : inv_num k s1).
+    { destruct Hi as [Ek El]. unfold inv_num, s1. cbn [en set_en]. destruct (en s); cbn in *. split; congruence. }
+    specialize (IH s1 Hi1 HF'). try rewrite Hg2 in IH. cbn [fst] in IH.
+    assert (Hhw : ehw (en s1) = ehw (en s) || nonempty E1) by (unfold s1; cbn [en set_en]; destruct (en s); reflexivity).
+    rewrite Hhw in IH.
+    destruct (psteps (pstep_num c k) s1 r) as [s'|]; destruct (elems_pieces c k (ehw (en s) || nonempty E1) E2) as [ps2|]; try exact IH.
+    destruct IH as (E' & -> & Hc & Ho). exists E'. split; [|split].
+    + unfold s1. rewrite emit_pieces_set_en, set_en_set_en, <- emit_pieces_app. reflexivity.
+    + rewrite Hc. unfold s1. cbn [en set_en]. destruct (en s); reflexivity.
+    + rewrite Ho. unfold s1. cbn [en set_en]. destruct (en s); reflexivity.
+Qed.
+
+(* ---- string-like ---- *)
+
+Definition inv_kind (k : akind) (s : est) : Prop := ek (en s) = k.
+
+Definition pstep_str (s : est) (ch : chunk) : option est :=
+  Some (set_en (set_emore (snd (fst ch)) (set_ebuf (ebuf (en s) ++ chunk_payload ch) (set_rem0 (en s)))) s).
+
+Lemma chunk_str c strict s ch :
+  inv_kind KStr s -> chunk_wf strict KStr ch ->
+  run c s (chunk_events ch) =
+  match pstep_str s ch with None => None | Some s' => if snd (fst ch) then Some s' else end_array s' end.
+Proof.
+  intros Ek Hwf. destruct ch as [[n m] ds]. cbn [chunk_wf] in Hwf. destruct Hwf as (Hn & H0 & Hpos & _).
+  rewrite run_chunk_events. unfold pstep_str, chunk_payload. cbn [fst snd].
+  destruct (N.eq_dec n 0) as [->|Hnz].
+  - rewrite (H0 eq_refl). cbn [concat data_events map]. rewrite begin_chunk_zero. cbv zeta. rewrite app_nil_r.
+    assert (Hs : upd_en (fun e => set_emore m (set_erem 0 e)) s = set_en (set_emore m (set_ebuf (ebuf (en s)) (set_rem0 (en s)))) s).
+    { unfold upd_en. f_equal; destruct (en s); reflexivity. }
+    rewrite Hs. destruct m; cbn [bind run]; [reflexivity | apply bind_ret].
+  - assert (Hnp : 0 < n) by lia. destruct (Hpos Hnp) as (Hne & Hlast & Hlen). cbn [chunk_bytes ak_width] in Hlen.
+    rewrite (begin_chunk_pos n m s Hnp). cbn [bind].
+    set (s1 := upd_en _ s).
+    assert (Hen1 : en s1 = set_emore m (set_erem n (en s))) by reflexivity.
+    assert (A1 : open_as KStr s1 n m).
+    { unfold open_as. rewrite Hen1. unfold inv_kind in Ek. destruct (en s); cbn in *. repeat split; congruence. }
+    rewrite (run_data_str c ds s1 n m A1 Hn Hne Hlast) by lia.
+    cbv zeta. rewrite Hen1. unfold s1, upd_en. rewrite set_en_set_en.
+    replace (set_ebuf (ebuf (set_emore m (set_erem n (en s))) ++ concat ds) (set_rem0 (set_emore m (set_erem n (en s)))))
+      with (set_emore m (set_ebuf (ebuf (en s) ++ concat ds) (set_rem0 (en s)))) by (destruct (en s); reflexivity).
+    reflexivity.
+Qed.
+
+Lemma psteps_str : forall cs s,
+  exists E', psteps pstep_str s cs = Some (set_en E' s) /\ ebuf E' = ebuf (en s) ++ flat_map chunk_payload cs /\
+             ecomp E' = ecomp (en s) /\ eouter E' = eouter (en s) /\ ek E' = ek (en s).
+Proof.
+  induction cs as [|ch r IH]; intro s.
+  - exists (en s). cbn. rewrite set_en_en, app_nil_r. auto.
+  - cbn [psteps pstep_str bind]. set (s1 := set_en _ s). destruct (IH s1) as (E' & Hp & Hb & Hc & Ho & Hk).
+    exists E'. rewrite Hp. unfold s1 in *. cbn [en set_en] in *. rewrite set_en_set_en. split; [reflexivity|].
+    cbn [flat_map]. rewrite app_assoc, Hb, Hc, Ho, Hk. destruct (en s); cbn. auto.
+Qed.
+
+(* ---- media / custom binary ---- *)
+
+Definition pstep_hex (s : est) (ch : chunk) : option est :=
+  let '(n, m, ds) := ch in
+  match ds with
+  | [] => Some (set_en (set_emore m (set_rem0 (en s))) s)
+  | _ => Some (set_en (set_emore m (set_ehw true (set_rem0 (en s))))
+                      (emit_cd ((if ehw (en s) then [32] else []) ++ hexbytes (concat ds)) (hex_dz (ehw (en s)) ds) s))
+  end.
+
+Lemma chunk_hex c s ch :
+  inv_kind KHex s -> chunk_wf true KHex ch ->
+  run c s (chunk_events ch) =
+  match pstep_hex s ch with None => None | Some s' => if snd (fst ch) then Some s' else end_array s' end.
+Proof.
+  intros Ek Hwf. destruct ch as [[n m] ds]. cbn [chunk_wf] in Hwf. destruct Hwf as (Hn & H0 & Hpos & Hstrict).
+  rewrite run_chunk_events. unfold pstep_hex. cbn [fst snd].
+  destruct (N.eq_dec n 0) as [->|Hnz].
+  - rewrite (H0 eq_refl). cbn [data_events map]. rewrite begin_chunk_zero. cbv zeta.
+    assert (Hs : upd_en (fun e => set_emore m (set_erem 0 e)) s = set_en (set_emore m (set_rem0 (en s))) s) by reflexivity.
+    rewrite Hs. destruct m; cbn [bind run]; [reflexivity | apply bind_ret].
+  - assert (Hnp : 0 < n) by lia. destruct (Hpos Hnp) as (Hne & Hlast & Hlen). cbn [chunk_bytes ak_width] in Hlen.
+    rewrite (begin_chunk_pos n m s Hnp). cbn [bind].
+    set (s1 := upd_en _ s).
+    assert (Hen1 : en s1 = set_emore m (set_erem n (en s))) by reflexivity.
+    assert (A1 : open_as KHex s1 n m).
+    { unfold open_as. rewrite Hen1. unfold inv_kind in Ek. destruct (en s); cbn in *. repeat split; congruence. }
+    rewrite (run_data_hex c ds s1 n m A1 Hn Hne (Hstrict eq_refl eq_refl)) by lia.
+    cbv zeta. rewrite Hen1. destruct ds as [|d0 ds0]; [congruence|].
+    replace (ehw (set_emore m (set_erem n (en s)))) with (ehw (en s)) by (destruct (en s); reflexivity).
+    unfold s1, upd_en. rewrite emit_cd_set_en, set_en_set_en.
+    replace (set_ehw true (set_rem0 (set_emore m (set_erem n (en s))))) with (set_emore m (set_ehw true (set_rem0 (en s))))
+      by (destruct (en s); reflexivity).
+    reflexivity.
+Qed.
+
+(* ---- bits ---- *)
+
+Definition pstep_bit (s : est) (ch : chunk) : option est :=
+  Some (set_en (set_emore (snd (fst ch)) (set_rem0 (en s))) (emit_nolf (bits_text (chunk_bits ch)) s)).
+
+Lemma emit_nolf_nil s : emit_nolf [] s = s.
+Proof. destruct s. unfold emit_nolf, emit_cd. cbn. f_equal. lia. Qed.
+
+Lemma chunk_bit c strict s ch :
+  inv_kind KBit s -> chunk_wf strict KBit ch ->
+  run c s (chunk_events ch) =
+  match pstep_bit s ch with None => None | Some s' => if snd (fst ch) then Some s' else end_array s' end.
+Proof.
+  intros Ek Hwf. destruct ch as [[n m] ds]. cbn [chunk_wf] in Hwf. destruct Hwf as (Hn & H0 & Hpos & _).
+  rewrite run_chunk_events. unfold pstep_bit, chunk_bits. cbn [fst snd].
+  destruct (N.eq_dec n 0) as [->|Hnz].
+  - rewrite (H0 eq_refl). cbn [data_events map concat bytes_bits flat_map firstn N.to_nat bits_text map]. 
+    rewrite begin_chunk_zero, emit_nolf_nil. cbv zeta.
+    assert (Hs : upd_en (fun e => set_emore m (set_erem 0 e)) s = set_en (set_emore m (set_rem0 (en s))) s) by reflexivity.
+    rewrite Hs. destruct m; cbn [bind run]; [reflexivity | apply bind_ret].
+  - assert (Hnp : 0 < n) by lia. destruct (Hpos Hnp) as (Hne & Hlast & Hlen). cbn [chunk_bytes] in Hlen.
+    rewrite (begin_chunk_pos n m s Hnp). cbn [bind].
+    set (s1 := upd_en _ s).
+    assert (Hen1 : en s1 = set_emore m (set_erem n (en s))) by reflexivity.
+    assert (A1 : open_as KBit s1 n m).
+    { unfold open_as. rewrite Hen1. unfold inv_kind in Ek. destruct (en s); cbn in *. repeat split; congruence. }
+    rewrite (run_data_bit c ds s1 n m A1 Hn Hnp Hne Hlast Hlen).
+    cbv zeta. rewrite Hen1. unfold s1, upd_en. rewrite emit_nolf_set_en, set_en_set_en.
+    replace (set_rem0 (set_emore m (set_erem n (en s)))) with (set_emore m (set_rem0 (en s))) by (destruct (en s); reflexivity).
+    reflexivity.
+Qed.
+
+Lemma psteps_bit : forall cs s,
+  exists E', psteps pstep_bit s cs = Some (set_en E' (emit_nolf (bits_text (flat_map chunk_bits cs)) s)) /\
+             ecomp E' = ecomp (en s) /\ eouter E' = eouter (en s).
+Proof.
+  induction cs as [|ch r IH]; intro s.
+  - exists (en s). cbn. rewrite emit_nolf_nil, set_en_en. auto.
+  - cbn [psteps pstep_bit bind]. set (s1 := set_en _ _). destruct (IH s1) as (E' & Hp & Hc & Ho).
+    exists E'. rewrite Hp. unfold s1 in *. cbn [en set_en] in *.
+    rewrite emit_nolf_set_en, set_en_set_en, emit_nolf_nolf. split; [|split].
+    + cbn [flat_map]. unfold bits_text. rewrite map_app. reflexivity.
+    + rewrite Hc. destruct (en s); reflexivity.
+    + rewrite Ho. destruct (en s); reflexivity.
+Qed.
+
+Lemma inv_pstep_hex s ch s' : inv_kind KHex s -> pstep_hex s ch = Some s' -> inv_kind KHex s'.
+Proof.
+  unfold inv_kind, pstep_hex. intros Ek H. destruct ch as [[n m] ds].
+  destruct ds; injection H as <-; cbn [en set_en]; destruct (en s); exact Ek.
+Qed.
+
+Lemma psteps_hex : forall cs s,
+  Forall (chunk_wf true KHex) cs ->
+  let P := flat_map chunk_payload cs in
+  exists E' dz,
+    psteps pstep_hex s cs =
+      Some (set_en E' (emit_cd ((if ehw (en s) && nonempty P then [32] else []) ++ hexbytes P) dz s)) /\
+    ecomp E' = ecomp (en s) /\ eouter E' = eouter (en s).
+Proof.
+  induction cs as [|ch r IH]; intros s HF; cbv zeta.
+  - exists (en s), 0%Z. cbn [flat_map nonempty psteps hexbytes]. rewrite andb_false_r. cbn [app].
+    replace (emit_cd [] 0 s) with s by (symmetry; apply emit_nolf_nil). rewrite set_en_en. auto.
+  - pose proof (Forall_inv HF) as Hch. pose proof (Forall_inv_tail HF) as HF'.
+    destruct ch as [[n m] ds]. cbn [psteps pstep_hex flat_map]. unfold chunk_payload at 1 3. cbn [snd].
+    destruct ds as [|d0 ds0].
+    + cbn [bind concat app]. set (s1 := set_en _ s).
+      destruct (IH s1 HF') as (E' & dz & Hp & Hc & Ho). cbv zeta in Hp.
+      exists E', dz. rewrite Hp. unfold s1 in *. cbn [en set_en] in *.
+      rewrite emit_cd_set_en, set_en_set_en.
+      replace (ehw (set_emore m (set_rem0 (en s)))) with (ehw (en s)) by (destruct (en s); reflexivity).
+      split; [reflexivity|]. rewrite Hc, Ho. destruct (en s); auto.
+    + cbn [bind]. set (ds := d0 :: ds0) in *. set (s1 := set_en _ (emit_cd _ _ s)).
+      destruct (IH s1 HF') as (E' & dz & Hp & Hc & Ho). cbv zeta in Hp.
+      cbn [chunk_wf] in Hch. destruct Hch as (Hn & H0 & Hpos & Hstrict).
+      assert (HP1 : concat ds <> []) by (apply concat_nonempty; [unfold ds; discriminate | apply Hstrict; reflexivity]).
+      exists E', (hex_dz (ehw (en s)) ds + dz)%Z. rewrite Hp. unfold s1 in *. cbn [en set_en] in *.
+      rewrite emit_cd_set_en, set_en_set_en, emit_cd_cd.
+      replace (ehw (set_emore m (set_ehw true (set_rem0 (en s))))) with true by (destruct (en s); reflexivity).
+      split; [|rewrite Hc, Ho; destruct (en s); auto].
+      do 3 f_equal. cbn [andb].
+      assert (Hne1 : nonempty (concat ds ++ flat_map chunk_payload r) = true) by (destruct (concat ds); [congruence | reflexivity]).
+      rewrite Hne1, andb_true_r.
+      destruct (flat_map chunk_payload r) as [|p0 P2] eqn:EP2.
+      * cbn [nonempty hexbytes app]. rewrite !app_nil_r. reflexivity.
+      * cbn [nonempty]. rewrite (hexbytes_app (concat ds) (p0 :: P2)) by (assumption || discriminate).
+        rewrite <- !app_assoc. reflexivity.
+Qed.
+
+(* ------------------------------------------------------------------ *)
+(** * The canonical effect of an array, and every delivery has it *)
+
+Definition oeq (o1 o2 : option est) : Prop :=
+  match o1, o2 with Some a, Some b => R a b | None, None => True | _, _ => False end.
+Definition congO (f : est -> option est) : Prop := forall a b, R a b -> oeq (f a) (f b).
+
+Lemma oeq_refl o : oeq o o.
+Proof. destruct o; cbn; [apply R_refl | exact I]. Qed.
+
+Lemma oeq_bind o1 o2 g : oeq o1 o2 -> congO g -> oeq (bind o1 g) (bind o2 g).
+Proof. intros H Hg. destruct o1, o2; cbn in *; try contradiction; [apply Hg, H | exact I]. Qed.
+
+Lemma congO_after_value : congO after_value.
+Proof.
+  intros a b HR. unfold after_value. rewrite (inv_stack _ _ HR).
+  destruct (after_stack (stack b)) as [[st' sep]|]; cbn; [|exact I].
+  apply (proj1 (cong_after_value_body st' sep) a b HR).
+Qed.
+
+Lemma congO_unstack : congO unstack.
+Proof.
+  intros a b HR. unfold unstack. rewrite (inv_stack _ _ HR). destruct (stack b) as [|d [|d' st]]; cbn; try exact I.
+  apply (proj1 (cong_set_stack (d' :: st)) a b HR).
+Qed.
+
+Lemma R_intro a b :
+  rout a = rout b -> col a = col b -> ind a = ind b -> stack a = stack b -> cho a = cho b -> dirty a = dirty b -> bad a = bad b ->
+  R a b.
+Proof. destruct a, b; cbn; intros; subst; reflexivity. Qed.
+
+Lemma R_intro_dirty a b :
+  rout a = rout b -> ind a = ind b -> stack a = stack b -> cho a = cho b -> dirty a = true -> dirty b = true -> bad a = bad b ->
+  R a b.
+Proof. destruct a, b; cbn; intros; subst; reflexivity. Qed.
+
+Definition pieces_rout (ps : list piece) (r : bytes) : bytes := fold_left (fun r p => rev_append (fst p) r) ps r.
+Definition pieces_col (ps : list piece) (c : Z) : Z := fold_left (fun c p => (c + snd p)%Z) ps c.
+
+Lemma emit_pieces_fields ps : forall s,
+  rout (emit_pieces ps s) = pieces_rout ps (rout s) /\ col (emit_pieces ps s) = pieces_col ps (col s) /\
+  ind (emit_pieces ps s) = ind s /\ stack (emit_pieces ps s) = stack s /\ cho (emit_pieces ps s) = cho s /\
+  dirty (emit_pieces ps s) = dirty s /\ bad (emit_pieces ps s) = bad s.
+Proof.
+  induction ps as [|p ps IH]; intro s; [cbn; repeat split|].
+  change (emit_pieces (p :: ps) s) with (emit_pieces ps (emit_cd (fst p) (snd p) s)).
+  change (pieces_rout (p :: ps) (rout s)) with (pieces_rout ps (rout (emit_cd (fst p) (snd p) s))).
+  change (pieces_col (p :: ps) (col s)) with (pieces_col ps (col (emit_cd (fst p) (snd p) s))).
+  destruct (IH (emit_cd (fst p) (snd p) s)) as (H1 & H2 & H3 & H4 & H5 & H6 & H7).
+  rewrite H1, H2, H3, H4, H5, H6, H7. repeat split.
+Qed.
+
+Lemma before_value_facts s sv : before_value s = Some sv -> stack sv = stack s /\ stack s <> [] /\ en sv = en s.
+Proof.
+  unfold before_value. destruct (stack s) as [|d st] eqn:Es; [discriminate|]. intros [= <-].
+  split; [|split; [discriminate|]].
+  - destruct d; try (symmetry; exact Es); unfold newline_indent, indent_if_origin; cbn;
+      try (destruct (at_origin (note_read s))); destruct s; cbn in *; congruence.
+  - destruct d; try reflexivity; unfold newline_indent, indent_if_origin; cbn;
+      try (destruct (at_origin (note_read s))); destruct s; reflexivity.
+Qed.
+
+(* the array's text between BeforeValue and AfterValue *)
+Definition canon_body (c : ccfg) (h : ahead) (d : adata) (s : est) : option est :=
+  match h, d with
+  | HArr t, ABits l =>
+      if t =? AT_Bit then Some (emit_nolf [93] (emit_nolf (bits_text l) (emit_nolf t_bithdr s))) else None
+  | HArr t, ABytes D =>
+      if t =? AT_String then Some (write_quoted true D s)
+      else if t =? AT_ResourceID then Some (write_quoted false D (emit_nolf [64] s))
+      else if t =? AT_ReferenceRemote then Some (write_quoted false D (emit_nolf [36] s))
+      else match nkind_of t with
+           | Some k =>
+               match num_header c k, elems_pieces c k false (fst (grp (nk_width k) [] D)) with
+               | Some hd, Some ps => Some (emit_nolf [93] (emit_pieces ps (emit_nolf hd s)))
+               | _, _ => None
+               end
+           | None => None
+           end
+  | HMedia mt, ABytes D => Some (emit_nolf [93] (emit_raw (hexbytes D) (emit_nolf (64 :: mt ++ [91]) (set_dirty s))))
+  | HCustom t ct, ABytes D =>
+      if t =? AT_CustomBinary then Some (emit_nolf [93] (emit_raw (hexbytes D) (emit_nolf (64 :: dec ct ++ [91]) (set_dirty s))))
+      else if t =? AT_CustomText then Some (write_quoted true D (emit_nolf (64 :: dec ct) s))
+      else None
+  | _, _ => None
+  end.
+
+Definition canon (c : ccfg) (h : ahead) (d : adata) (s : est) : option est :=
+  bind (before_value s) (fun s => bind (canon_body c h d s) after_value).
+
+(* canon_body is either a congruence or fails regardless of the state *)
+Lemma canon_body_shape c h d : (exists f, cong f /\ forall s, canon_body c h d s = Some (f s)) \/ (forall s, canon_body c h d s = None).
+Proof.
+  assert (Hhex : forall hd D, cong (fun s => emit_nolf [93] (emit_raw (hexbytes D) (emit_nolf hd (set_dirty s))))).
+  { intros hd D. apply (cong_comp (fun s => emit_raw (hexbytes D) (emit_nolf hd (set_dirty s))) (emit_nolf [93])); [|apply cong_emit_nolf].
+    apply (cong_comp (fun s => emit_nolf hd (set_dirty s)) (emit_raw (hexbytes D))); [|apply cong_emit_raw].
+    apply (cong_comp set_dirty (emit_nolf hd)); [apply cong_set_dirty | apply cong_emit_nolf]. }
+  assert (Hq : forall lf D pre, cong (fun s => write_quoted lf D (emit_nolf pre s))).
+  { intros. apply (cong_comp (emit_nolf pre) (write_quoted lf D)); [apply cong_emit_nolf | apply cong_write_quoted]. }
+  destruct h as [t|mt|t ct], d as [D|l]; cbn [canon_body]; try (right; reflexivity).
+  - destruct (t =? AT_String); [left; eexists; split; [apply (cong_write_quoted true D) | reflexivity]|].
+    destruct (t =? AT_ResourceID); [left; eexists; split; [apply (Hq false D [64]) | reflexivity]|].
+    destruct (t =? AT_ReferenceRemote); [left; eexists; split; [apply (Hq false D [36]) | reflexivity]|].
+    destruct (nkind_of t) as [k|]; [|right; reflexivity].
+    destruct (num_header c k) as [hd|]; [|right; reflexivity].
+    destruct (elems_pieces c k false _) as [ps|]; [|right; reflexivity].
+    left. eexists; split; [|reflexivity].
+    apply (cong_comp (fun s => emit_pieces ps (emit_nolf hd s)) (emit_nolf [93])); [|apply cong_emit_nolf].
+    apply (cong_comp (emit_nolf hd) (emit_pieces ps)); [apply cong_emit_nolf | apply cong_emit_pieces].
+  - destruct (t =? AT_Bit); [|right; reflexivity]. left; eexists; split; [|reflexivity].
+    apply (cong_comp (fun s => emit_nolf (bits_text l) (emit_nolf t_bithdr s)) (emit_nolf [93])); [|apply cong_emit_nolf].
+    apply (cong_comp (emit_nolf t_bithdr) (emit_nolf (bits_text l))); apply cong_emit_nolf.
+  - left; eexists; split; [apply (Hhex (64 :: mt ++ [91]) D) | reflexivity].
+  - destruct (t =? AT_CustomBinary); [left; eexists; split; [apply (Hhex (64 :: dec ct ++ [91]) D) | reflexivity]|].
+    destruct (t =? AT_CustomText); [left; eexists; split; [apply (Hq true D (64 :: dec ct)) | reflexivity] | right; reflexivity].
+Qed.
+
+Lemma good_canon c h d : goodO (canon c h d).
+Proof.
+  unfold canon. apply good_bind; [apply good_before_value | |].
+  - destruct (canon_body_shape c h d) as [(f & Hf & E)|E].
+    + intros a b HR. rewrite !E. cbn [bind]. apply good_after_value, Hf, HR.
+    + intros a b HR. rewrite !E. exact I.
+  - destruct (canon_body_shape c h d) as [(f & Hf & E)|E]; intros s s' Hb Es; rewrite E in Es; cbn [bind] in Es; [|discriminate].
+    eapply mono_after_value; [|exact Es]. destruct Hf as [_ Hf]. rewrite Hf. exact Hb.
+Qed.
+
+Lemma nkind_of_facts t k : nkind_of t = Some k ->
+  (t =? AT_Bit) = false /\ (t =? AT_String) = false /\ (t =? AT_ResourceID) = false /\ (t =? AT_ReferenceRemote) = false /\
+  is_string_type t = false /\ is_text_type t = false.
+Proof.
+  intro H. unfold nkind_of in H.
+  repeat match type of H with
+         | (if ?x then _ else _) = _ =>
+             destruct x eqn:?E;
+             [match goal with E1 : (t =? _) = true |- _ => apply N.eqb_eq in E1; subst t end; vm_compute; repeat split; reflexivity|]
+         end.
+  discriminate H.
+Qed.
+
+Lemma text_type_cases t : is_text_type t = true -> t = AT_String \/ t = AT_ResourceID \/ t = AT_ReferenceRemote.
+Proof.
+  unfold is_text_type. intro H. apply orb_true_iff in H. destruct H as [H|H]; [apply orb_true_iff in H; destruct H as [H|H]|];
+    apply N.eqb_eq in H; auto.
+Qed.
+
+Lemma en_write_quoted lf v s : en (write_quoted lf v s) = en s.
+Proof.
+  assert (Hf : forall (l : list N) (F : est -> N -> est), (forall s r, en (F s r) = en s) -> forall s, en (fold_left F l s) = en s).
+  { induction l as [|r l IH]; intros F HF s0; cbn; [reflexivity|]. rewrite IH by exact HF. apply HF. }
+  unfold write_quoted. destruct v as [|b v]; [reflexivity|].
+  destruct (forallb rune_safe (runes (b :: v))).
+  - destruct lf; cbn; [unfold emit_plf; destruct (plf_col (b :: v)); reflexivity | reflexivity].
+  - cbn [en emit_nolf emit_cd]. rewrite Hf; [reflexivity|].
+    intros s0 r. destruct (rune_safe r); [unfold emit_rune; destruct (lf && (r =? 10)); reflexivity | reflexivity].
+Qed.
+
+Lemma end_array_end_none s : ecomp (en s) = CEnd -> eouter (en s) = ONone -> end_array s = Some (emit_nolf [93] s).
+Proof. intros Hc Ho. unfold end_array. rewrite Hc. cbn [bind en emit_nolf emit_cd]. rewrite Ho. reflexivity. Qed.
+
+Lemma end_array_end_unstack s : ecomp (en s) = CEnd -> eouter (en s) = OUnstackAfter ->
+  end_array s = bind (unstack (emit_nolf [93] s)) after_value.
+Proof. intros Hc Ho. unfold end_array. rewrite Hc. cbn [bind en emit_nolf emit_cd]. rewrite Ho. reflexivity. Qed.
+
+Lemma end_array_quoted_after s lf : ecomp (en s) = CQuoted lf -> eouter (en s) = OAfter ->
+  end_array s = after_value (write_quoted lf (ebuf (en s)) s).
+Proof. intros Hc Ho. unfold end_array. rewrite Hc. cbn [bind]. rewrite en_write_quoted, Ho. reflexivity. Qed.
+
+Lemma run_single c s e : run c s [e] = step c s e.
+Proof. cbn. apply bind_ret. Qed.
+
+Lemma R_set_en e s : R (set_en e s) s.
+Proof. destruct s; reflexivity. Qed.
+
+Lemma unstack_pushed d x : stack x <> [] -> unstack (push d x) = Some (set_stack (stack x) (push d x)).
+Proof. intro H. unfold unstack, push. cbn. destruct (stack x) as [|d0 st]; [congruence | reflexivity]. Qed.
+
+(* ---- whole-array events ---- *)
+
+Lemma group_media c mt d s : oeq (run c s [EMedia mt d]) (canon c (HMedia mt) (ABytes d) s).
+Proof. rewrite run_single. apply oeq_refl. Qed.
+
+Lemma group_custom_bin c ct d s : oeq (run c s [ECustomBin ct d]) (canon c (HCustom AT_CustomBinary ct) (ABytes d) s).
+Proof. rewrite run_single. apply oeq_refl. Qed.
+
+Lemma group_custom_text c ct d s : oeq (run c s [ECustomText ct d]) (canon c (HCustom AT_CustomText ct) (ABytes d) s).
+Proof. rewrite run_single. apply oeq_refl. Qed.
+
+Lemma group_string_array c t d s : is_text_type t = true -> oeq (run c s [EStringArray t d]) (canon c (HArr t) (ABytes d) s).
+Proof.
+  intro Ht. rewrite run_single. destruct (text_type_cases t Ht) as [->|[->| ->]]; apply oeq_refl.
+Qed.
+
+Lemma group_array_text c t n d s : is_text_type t = true -> oeq (run c s [EArray t n d]) (canon c (HArr t) (ABytes d) s).
+Proof.
+  intro Ht. rewrite run_single. destruct (text_type_cases t Ht) as [->|[->| ->]]; apply oeq_refl.
+Qed.
+
+Lemma bind_ext {A B} (o : option A) (f g : A -> option B) : (forall x, f x = g x) -> bind o f = bind o g.
+Proof. intro H. destruct o; cbn; [apply H | reflexivity]. Qed.
+
+(* ---- numeric and UID arrays ---- *)
+
+Lemma engine_begin_num c t k o x : nkind_of t = Some k ->
+  engine_begin_array c t o x =
+  match num_header c k with
+  | Some hd => Some (emit_nolf hd (upd_en (eng_begin (KNum k) CEnd o) x))
+  | None => None
+  end.
+Proof.
+  intro Hk. destruct (nkind_of_facts t k Hk) as (H1 & H2 & H3 & H4 & _).
+  unfold engine_begin_array. rewrite H1, H2, H3, H4, Hk. reflexivity.
+Qed.
+
+(* the chunks of a numeric array, from the state right after its header *)
+Lemma num_chunks c strict k o hd x cs :
+  chunks_wf strict (KNum k) cs ->
+  let sB := emit_nolf hd (upd_en (eng_begin (KNum k) CEnd o) x) in
+  match elems_pieces c k false (fst (grp (nk_width k) [] (flat_map chunk_payload cs))) with
+  | Some ps => exists E', run c sB (chunks_events cs) = end_array (set_en E' (emit_pieces ps sB)) /\ ecomp E' = CEnd /\ eouter E' = o
+  | None => run c sB (chunks_events cs) = None
+  end.
+Proof.
+  intros Hwf sB.
+  assert (Hi : inv_num k sB) by (unfold inv_num; split; reflexivity).
+  rewrite (run_chunks c strict (KNum k) (inv_num k) (pstep_num c k)
+             (fun s ch => chunk_num c strict k s ch) (fun s ch s' Hs _ Hp => inv_pstep_num c k s ch s' Hs Hp) cs sB Hi Hwf).
+  pose proof (psteps_num c strict k cs sB Hi (chunks_wf_forall _ _ _ Hwf)) as HP.
+  change (ehw (en sB)) with false in HP.
+  destruct (psteps (pstep_num c k) sB cs) as [s'|]; destruct (elems_pieces c k false _) as [ps|]; cbv beta iota in HP; try contradiction; cbn [bind].
+  - destruct HP as (E' & HE & Hc & Ho). exists E'. rewrite HE. auto.
+  - reflexivity.
+Qed.
+
+Lemma R_num_result E' ps hd F d sv :
+  stack sv <> [] ->
+  R (set_stack (stack sv) (emit_nolf [93] (set_en E' (emit_pieces ps (emit_nolf hd (upd_en F (push d sv)))))))
+    (emit_nolf [93] (emit_pieces ps (emit_nolf hd sv))).
+Proof.
+  intro Hs. 
+  destruct (emit_pieces_fields ps (emit_nolf hd (upd_en F (push d sv)))) as (A1 & A2 & A3 & A4 & A5 & A6 & A7).
+  destruct (emit_pieces_fields ps (emit_nolf hd sv)) as (B1 & B2 & B3 & B4 & B5 & B6 & B7).
+  apply R_intro; cbn; rewrite ?A1, ?A2, ?A3, ?A4, ?A5, ?A6, ?A7, ?B1, ?B2, ?B3, ?B4, ?B5, ?B6, ?B7; reflexivity.
+Qed.
+
+Lemma R_num_result0 E' ps hd F sv :
+  R (emit_nolf [93] (set_en E' (emit_pieces ps (emit_nolf hd (upd_en F sv)))))
+    (emit_nolf [93] (emit_pieces ps (emit_nolf hd sv))).
+Proof.
+  destruct (emit_pieces_fields ps (emit_nolf hd (upd_en F sv))) as (A1 & A2 & A3 & A4 & A5 & A6 & A7).
+  destruct (emit_pieces_fields ps (emit_nolf hd sv)) as (B1 & B2 & B3 & B4 & B5 & B6 & B7).
+  apply R_intro; cbn; rewrite ?A1, ?A2, ?A3, ?A4, ?A5, ?A6, ?A7, ?B1, ?B2, ?B3, ?B4, ?B5, ?B6, ?B7; reflexivity.
+Qed.
+
+Lemma group_num_chunked c t k cs s :
+  nkind_of t = Some k -> chunks_wf true (KNum k) cs ->
+  oeq (run c s (EArrayBegin t :: chunks_events cs)) (canon c (HArr t) (ABytes (flat_map chunk_payload cs)) s).
+Proof.
+  intros Hk Hwf. destruct (nkind_of_facts t k Hk) as (H1 & H2 & H3 & H4 & H5 & _).
+  cbn [run step]. unfold canon, ctx_begin_array. rewrite H5.
+  destruct (before_value s) as [sv|] eqn:Ebv; cbn [bind]; [|exact I].
+  destruct (before_value_facts s sv Ebv) as (Hst & Hne & _).
+  rewrite (engine_begin_num c t k _ _ Hk). cbn [canon_body]. rewrite H2, H3, H4, Hk.
+  destruct (num_header c k) as [hd|]; cbn [bind]; [|exact I].
+  pose proof (num_chunks c true k OUnstackAfter hd (push DNSArray sv) cs Hwf) as HC. cbv zeta in HC.
+  destruct (elems_pieces c k false _) as [ps|].
+  - destruct HC as (E' & -> & Hc & Ho). cbn [bind].
+    rewrite end_array_end_unstack by assumption.
+    assert (Hun : unstack (emit_nolf [93] (set_en E' (emit_pieces ps (emit_nolf hd (upd_en (eng_begin (KNum k) CEnd OUnstackAfter) (push DNSArray sv))))))
+                  = Some (set_stack (stack sv) (emit_nolf [93] (set_en E' (emit_pieces ps (emit_nolf hd (upd_en (eng_begin (KNum k) CEnd OUnstackAfter) (push DNSArray sv)))))))).
+    { unfold unstack. destruct (emit_pieces_fields ps (emit_nolf hd (upd_en (eng_begin (KNum k) CEnd OUnstackAfter) (push DNSArray sv)))) as (_ & _ & _ & A4 & _).
+      cbn [stack emit_nolf emit_cd set_en]. rewrite A4. cbn. destruct (stack sv); [congruence | reflexivity]. }
+    rewrite Hun. cbn [bind]. apply congO_after_value. rewrite <- Hst in Hne. apply R_num_result. exact Hne.
+  - rewrite HC. exact I.
+Qed.
+
+Lemma group_num_whole c t k n d s :
+  nkind_of t = Some k -> n < 2 ^ 64 -> length d = (N.to_nat n * nk_width k)%nat ->
+  oeq (run c s [EArray t n d]) (canon c (HArr t) (ABytes d) s).
+Proof.
+  intros Hk Hn Hlen. destruct (nkind_of_facts t k Hk) as (H1 & H2 & H3 & H4 & H5 & _).
+  rewrite run_single. cbn [step]. unfold canon. rewrite H2, H3, H4.
+  destruct (before_value s) as [sv|] eqn:Ebv; cbn [bind]; [|exact I].
+  rewrite (engine_begin_num c t k _ _ Hk). cbn [canon_body]. rewrite H2, H3, H4, Hk.
+  destruct (num_header c k) as [hd|]; cbn [bind]; [|exact I].
+  set (sB := emit_nolf hd (upd_en (eng_begin (KNum k) CEnd ONone) sv)).
+  set (ds := if n =? 0 then [] else [d]).
+  assert (Hrun : bind (begin_chunk n false sB) (fun s0 => if 0 <? n then add_data c d s0 else Some s0)
+                 = run c sB (chunks_events [(n, false, ds)])).
+  { unfold chunks_events. cbn [flat_map]. rewrite app_nil_r, run_chunk_events. apply bind_ext. intro x. unfold ds.
+    destruct (N.eqb_spec n 0) as [->|Hz]; [reflexivity|].
+    assert (E : 0 <? n = true) by (apply N.ltb_lt; lia). rewrite E. cbn. symmetry. apply bind_ret. }
+  rewrite Hrun.
+  assert (Hwf : chunks_wf true (KNum k) [(n, false, ds)]).
+  { cbn. repeat split; try assumption; try reflexivity; unfold ds.
+    - intros ->. reflexivity.
+    - destruct (N.eqb_spec n 0); [lia | discriminate].
+    - destruct (N.eqb_spec n 0); [lia|]. cbn. pose proof (nk_width_pos k). destruct d; [cbn in Hlen; nia | discriminate].
+    - destruct (N.eqb_spec n 0); [lia|]. cbn. rewrite app_nil_r. exact Hlen.
+    - discriminate. }
+  pose proof (num_chunks c true k ONone hd sv [(n, false, ds)] Hwf) as HC. cbv zeta in HC. fold sB in HC.
+  assert (HD : flat_map chunk_payload [(n, false, ds)] = d).
+  { cbn. rewrite app_nil_r. unfold ds. destruct (N.eqb_spec n 0) as [->|]; cbn; [destruct d; [reflexivity | discriminate] | apply app_nil_r]. }
+  rewrite HD in HC.
+  destruct (elems_pieces c k false _) as [ps|].
+  - destruct HC as (E' & -> & Hc & Ho). rewrite end_array_end_none by assumption. cbn [bind].
+    apply congO_after_value. apply R_num_result0.
+  - rewrite HC. exact I.
+Qed.
+
+(* ---- bit arrays ---- *)
+
+Lemma inv_pstep_bit s ch s' : inv_kind KBit s -> pstep_bit s ch = Some s' -> inv_kind KBit s'.
+Proof. unfold inv_kind, pstep_bit. intros Ek [= <-]. cbn [en set_en emit_nolf emit_cd]. destruct (en s); exact Ek. Qed.
+
+Lemma bit_chunks c strict o x cs :
+  chunks_wf strict KBit cs ->
+  let sB := emit_nolf t_bithdr (upd_en (eng_begin KBit CEnd o) x) in
+  exists E', run c sB (chunks_events cs) = end_array (set_en E' (emit_nolf (bits_text (flat_map chunk_bits cs)) sB)) /\
+             ecomp E' = CEnd /\ eouter E' = o.
+Proof.
+  intros Hwf sB. assert (Hi : inv_kind KBit sB) by reflexivity.
+  rewrite (run_chunks c strict KBit (inv_kind KBit) pstep_bit
+             (fun s ch => chunk_bit c strict s ch) (fun s ch s' Hs _ Hp => inv_pstep_bit s ch s' Hs Hp) cs sB Hi Hwf).
+  destruct (psteps_bit cs sB) as (E' & Hp & Hc & Ho). rewrite Hp. cbn [bind]. exists E'. auto.
+Qed.
+
+Lemma R_bit_result E' bt F d sv :
+  R (set_stack (stack sv) (emit_nolf [93] (set_en E' (emit_nolf bt (emit_nolf t_bithdr (upd_en F (push d sv)))))))
+    (emit_nolf [93] (emit_nolf bt (emit_nolf t_bithdr sv))).
+Proof. apply R_intro; reflexivity. Qed.
+
+Lemma R_bit_result0 E' bt F sv :
+  R (emit_nolf [93] (set_en E' (emit_nolf bt (emit_nolf t_bithdr (upd_en F sv)))))
+    (emit_nolf [93] (emit_nolf bt (emit_nolf t_bithdr sv))).
+Proof. apply R_intro; reflexivity. Qed.
+
+Lemma group_bit_chunked c cs s :
+  chunks_wf true KBit cs ->
+  oeq (run c s (EArrayBegin AT_Bit :: chunks_events cs)) (canon c (HArr AT_Bit) (ABits (flat_map chunk_bits cs)) s).
+Proof.
+  intro Hwf. cbn [run step]. unfold canon, ctx_begin_array.
+  change (is_string_type AT_Bit) with false. cbv iota.
+  destruct (before_value s) as [sv|] eqn:Ebv; cbn [bind]; [|exact I].
+  destruct (before_value_facts s sv Ebv) as (Hst & Hne & _).
+  change (engine_begin_array c AT_Bit OUnstackAfter (push DNSArray sv))
+    with (Some (emit_nolf t_bithdr (upd_en (eng_begin KBit CEnd OUnstackAfter) (push DNSArray sv)))).
+  cbn [bind canon_body]. change (AT_Bit =? AT_Bit) with true. cbv iota.
+  destruct (bit_chunks c true OUnstackAfter (push DNSArray sv) cs Hwf) as (E' & -> & Hc & Ho).
+  rewrite end_array_end_unstack by assumption.
+  change (unstack (emit_nolf [93] (set_en E' (emit_nolf (bits_text (flat_map chunk_bits cs))
+            (emit_nolf t_bithdr (upd_en (eng_begin KBit CEnd OUnstackAfter) (push DNSArray sv)))))))
+    with (match stack sv with _ :: _ => Some (set_stack (stack sv) (emit_nolf [93] (set_en E' (emit_nolf (bits_text (flat_map chunk_bits cs))
+            (emit_nolf t_bithdr (upd_en (eng_begin KBit CEnd OUnstackAfter) (push DNSArray sv))))))) | [] => None end).
+  rewrite Hst. destruct (stack s) as [|d0 st0] eqn:Es; [congruence|]. rewrite <- Hst. cbn [bind].
+  apply congO_after_value. apply R_bit_result.
+Qed.
+
+Lemma group_bit_whole c n d s :
+  n < 2 ^ 64 -> length d = N.to_nat ((n + 7) / 8) ->
+  oeq (run c s [EArray AT_Bit n d]) (canon c (HArr AT_Bit) (ABits (firstn (N.to_nat n) (bytes_bits d))) s).
+Proof.
+  intros Hn Hlen. rewrite run_single. cbn [step]. unfold canon.
+  change (AT_Bit =? AT_String) with false. change (AT_Bit =? AT_ResourceID) with false. change (AT_Bit =? AT_ReferenceRemote) with false.
+  cbv iota.
+  destruct (before_value s) as [sv|] eqn:Ebv; cbn [bind]; [|exact I].
+  change (engine_begin_array c AT_Bit ONone sv) with (Some (emit_nolf t_bithdr (upd_en (eng_begin KBit CEnd ONone) sv))).
+  cbn [bind canon_body]. change (AT_Bit =? AT_Bit) with true. cbv iota.
+  set (sB := emit_nolf t_bithdr (upd_en (eng_begin KBit CEnd ONone) sv)).
+  set (ds := if n =? 0 then [] else [d]).
+  assert (Hrun : bind (begin_chunk n false sB) (fun s0 => if 0 <? n then add_data c d s0 else Some s0)
+                 = run c sB (chunks_events [(n, false, ds)])).
+  { unfold chunks_events. cbn [flat_map]. rewrite app_nil_r, run_chunk_events. apply bind_ext. intro x. unfold ds.
+    destruct (N.eqb_spec n 0) as [->|Hz]; [reflexivity|].
+    assert (E : 0 <? n = true) by (apply N.ltb_lt; lia). rewrite E. cbn. symmetry. apply bind_ret. }
+  rewrite Hrun.
+  pose proof (ceil8_bounds n) as [B1 B2].
+  assert (Hwf : chunks_wf true KBit [(n, false, ds)]).
+  { cbn. repeat split; try assumption; try reflexivity; unfold ds.
+    - intros ->. reflexivity.
+    - destruct (N.eqb_spec n 0); [lia | discriminate].
+    - destruct (N.eqb_spec n 0); [lia|]. cbn. destruct d; [cbn in Hlen; lia | discriminate].
+    - destruct (N.eqb_spec n 0); [lia|]. cbn. rewrite app_nil_r. exact Hlen.
+    - discriminate. }
+  destruct (bit_chunks c true ONone sv [(n, false, ds)] Hwf) as (E' & HR & Hc & Ho). fold sB in HR. rewrite HR.
+  rewrite end_array_end_none by assumption. cbn [bind].
+  assert (HD : flat_map chunk_bits [(n, false, ds)] = firstn (N.to_nat n) (bytes_bits d)).
+  { cbn. rewrite app_nil_r. unfold ds. destruct (N.eqb_spec n 0) as [->|]; cbn; [reflexivity | rewrite app_nil_r; reflexivity]. }
+  rewrite HD. apply congO_after_value. apply R_bit_result0.
+Qed.
+
+(* ---- string-like arrays, chunked ---- *)
+
+Lemma inv_pstep_str s ch s' : inv_kind KStr s -> pstep_str s ch = Some s' -> inv_kind KStr s'.
+Proof. unfold inv_kind, pstep_str. intros Ek [= <-]. cbn [en set_en]. destruct (en s); exact Ek. Qed.
+
+Lemma str_chunks c strict sB cs :
+  chunks_wf strict KStr cs -> inv_kind KStr sB ->
+  exists E', run c sB (chunks_events cs) = end_array (set_en E' sB) /\
+             ebuf E' = ebuf (en sB) ++ flat_map chunk_payload cs /\ ecomp E' = ecomp (en sB) /\ eouter E' = eouter (en sB).
+Proof.
+  intros Hwf Hi.
+  rewrite (run_chunks c strict KStr (inv_kind KStr) pstep_str
+             (fun s ch => chunk_str c strict s ch) (fun s ch s' Hs _ Hp => inv_pstep_str s ch s' Hs Hp) cs sB Hi Hwf).
+  destruct (psteps_str cs sB) as (E' & Hp & Hb & Hc & Ho & _). rewrite Hp. cbn [bind]. exists E'. auto.
+Qed.
+
+(* after the header [pre] of a string-like array (possibly empty) *)
+Lemma group_str_tail c lf cs sB X D :
+  chunks_wf true KStr cs -> inv_kind KStr sB -> ebuf (en sB) = [] -> ecomp (en sB) = CQuoted lf -> eouter (en sB) = OAfter ->
+  R sB X -> D = flat_map chunk_payload cs ->
+  oeq (run c sB (chunks_events cs)) (after_value (write_quoted lf D X)).
+Proof.
+  intros Hwf Hi Hb Hc Ho HR ->.
+  destruct (str_chunks c true sB cs Hwf Hi) as (E' & -> & Hb' & Hc' & Ho').
+  rewrite (end_array_quoted_after _ lf) by (cbn [en set_en]; congruence).
+  cbn [en set_en]. rewrite Hb', Hb. cbn [app].
+  apply congO_after_value. apply cong_write_quoted. eapply R_trans; [apply R_set_en | exact HR].
+Qed.
+
+Lemma group_text_chunked c t cs s :
+  is_text_type t = true -> chunks_wf true KStr cs ->
+  oeq (run c s (EArrayBegin t :: chunks_events cs)) (canon c (HArr t) (ABytes (flat_map chunk_payload cs)) s).
+Proof.
+  intros Ht Hwf. cbn [run step]. unfold canon, ctx_begin_array.
+  destruct (before_value s) as [sv|] eqn:Ebv; cbn [bind]; [|exact I].
+  destruct (text_type_cases t Ht) as [->|[->| ->]].
+  - change (is_string_type AT_String) with true. cbv iota.
+    change (engine_begin_array c AT_String OAfter sv) with (Some (upd_en (eng_begin KStr (CQuoted true) OAfter) sv)).
+    cbn [bind canon_body]. change (AT_String =? AT_String) with true. cbv iota. cbn [bind].
+    apply (group_str_tail c true cs); try reflexivity; try assumption; try apply R_set_en.
+  - change (is_string_type AT_ResourceID) with true. cbv iota.
+    change (engine_begin_array c AT_ResourceID OAfter sv) with (Some (emit_nolf [64] (upd_en (eng_begin KStr (CQuoted false) OAfter) sv))).
+    cbn [bind canon_body]. change (AT_ResourceID =? AT_String) with false. change (AT_ResourceID =? AT_ResourceID) with true. cbv iota. cbn [bind].
+    apply (group_str_tail c false cs); try reflexivity; try assumption; try (apply R_intro; reflexivity).
+  - change (is_string_type AT_ReferenceRemote) with true. cbv iota.
+    change (engine_begin_array c AT_ReferenceRemote OAfter sv) with (Some (emit_nolf [36] (upd_en (eng_begin KStr (CQuoted false) OAfter) sv))).
+    cbn [bind canon_body]. change (AT_ReferenceRemote =? AT_String) with false. change (AT_ReferenceRemote =? AT_ResourceID) with false.
+    change (AT_ReferenceRemote =? AT_ReferenceRemote) with true. cbv iota. cbn [bind].
+    apply (group_str_tail c false cs); try reflexivity; try assumption; try (apply R_intro; reflexivity).
+Qed.
+
+Lemma group_custom_text_chunked c ct cs s :
+  chunks_wf true KStr cs ->
+  oeq (run c s (ECustomBegin AT_CustomText ct :: chunks_events cs)) (canon c (HCustom AT_CustomText ct) (ABytes (flat_map chunk_payload cs)) s).
+Proof.
+  intro Hwf. cbn [run step]. unfold canon.
+  destruct (before_value s) as [sv|] eqn:Ebv; cbn [bind]; [|exact I].
+  change (AT_CustomText =? AT_CustomBinary) with false. change (AT_CustomText =? AT_CustomText) with true. cbv iota.
+  cbn [bind canon_body]. change (AT_CustomText =? AT_CustomBinary) with false. change (AT_CustomText =? AT_CustomText) with true. cbv iota. cbn [bind].
+  apply (group_str_tail c true cs); try reflexivity; try assumption; try (apply R_intro; reflexivity).
+Qed.
+
+(* ---- media and custom binary, chunked ---- *)
+
+Lemma hex_chunks c sB cs :
+  chunks_wf true KHex cs -> inv_kind KHex sB -> ehw (en sB) = false ->
+  exists E' dz, run c sB (chunks_events cs) = end_array (set_en E' (emit_cd (hexbytes (flat_map chunk_payload cs)) dz sB)) /\
+                ecomp E' = ecomp (en sB) /\ eouter E' = eouter (en sB).
+Proof.
+  intros Hwf Hi Hhw.
+  rewrite (run_chunks c true KHex (inv_kind KHex) pstep_hex
+             (fun s ch => chunk_hex c s ch) (fun s ch s' Hs _ Hp => inv_pstep_hex s ch s' Hs Hp) cs sB Hi Hwf).
+  destruct (psteps_hex cs sB (chunks_wf_forall _ _ _ Hwf)) as (E' & dz & Hp & Hc & Ho). cbv zeta in Hp.
+  rewrite Hp, Hhw. cbn [andb app bind]. exists E', dz. auto.
+Qed.
+
+Lemma group_hex_tail c hdr cs sv :
+  chunks_wf true KHex cs -> stack sv <> [] ->
+  oeq (run c (emit_nolf hdr (upd_en (eng_begin KHex CEnd OUnstackAfter) (set_dirty (push DNSArray sv)))) (chunks_events cs))
+      (after_value (emit_nolf [93] (emit_raw (hexbytes (flat_map chunk_payload cs)) (emit_nolf hdr (set_dirty sv))))).
+Proof.
+  intros Hwf Hne.
+  set (sB := emit_nolf hdr _).
+  destruct (hex_chunks c sB cs Hwf) as (E' & dz & -> & Hc & Ho); try reflexivity.
+  rewrite end_array_end_unstack by (cbn [en set_en]; assumption).
+  change (unstack (emit_nolf [93] (set_en E' (emit_cd (hexbytes (flat_map chunk_payload cs)) dz sB))))
+    with (match stack sv with _ :: _ => Some (set_stack (stack sv) (emit_nolf [93] (set_en E' (emit_cd (hexbytes (flat_map chunk_payload cs)) dz sB)))) | [] => None end).
+  destruct (stack sv) as [|d0 st0] eqn:Es; [congruence|]. rewrite <- Es. cbn [bind].
+  apply congO_after_value. apply R_intro_dirty; reflexivity.
+Qed.
+
+Lemma group_media_chunked c mt cs s :
+  chunks_wf true KHex cs ->
+  oeq (run c s (EMediaBegin mt :: chunks_events cs)) (canon c (HMedia mt) (ABytes (flat_map chunk_payload cs)) s).
+Proof.
+  intro Hwf. cbn [run step]. unfold canon.
+  destruct (before_value s) as [sv|] eqn:Ebv; cbn [bind]; [|exact I].
+  destruct (before_value_facts s sv Ebv) as (Hst & Hne & _). cbn [canon_body bind].
+  apply group_hex_tail; [exact Hwf | congruence].
+Qed.
+
+Lemma group_custom_bin_chunked c ct cs s :
+  chunks_wf true KHex cs ->
+  oeq (run c s (ECustomBegin AT_CustomBinary ct :: chunks_events cs)) (canon c (HCustom AT_CustomBinary ct) (ABytes (flat_map chunk_payload cs)) s).
+Proof.
+  intro Hwf. cbn [run step]. unfold canon.
+  destruct (before_value s) as [sv|] eqn:Ebv; cbn [bind]; [|exact I].
+  destruct (before_value_facts s sv Ebv) as (Hst & Hne & _).
+  change (AT_CustomBinary =? AT_CustomBinary) with true. cbv iota. cbn [canon_body bind].
+  change (AT_CustomBinary =? AT_CustomBinary) with true. cbv iota. cbn [bind].
+  apply group_hex_tail; [exact Hwf | congruence].
+Qed.
+
+(* ------------------------------------------------------------------ *)
+(** * Every delivery of an array has the canonical effect *)
+
+Theorem delivery_canon c h d g : delivery true h d g -> forall s, oeq (run c s g) (canon c h d s).
+Proof.
+  intros Hd s. destruct Hd as [h k cs Hk Hwf | t k n d Hk Hn Hlen | n d Hn Hlen | t n d Ht | t d Ht | mt d | ct d | ct d].
+  - destruct h as [t|mt|t ct]; cbn [hkind begin_event] in *.
+    + destruct (t =? AT_Bit) eqn:Eb.
+      * apply N.eqb_eq in Eb. subst t. injection Hk as Hk; subst k. apply group_bit_chunked, Hwf.
+      * destruct (is_text_type t) eqn:Et.
+        -- injection Hk as Hk; subst k. apply group_text_chunked; assumption.
+        -- destruct (nkind_of t) as [k'|] eqn:En; [|discriminate]. injection Hk as Hk; subst k.
+           apply (group_num_chunked c t k'); assumption.
+    + injection Hk as Hk; subst k. apply group_media_chunked, Hwf.
+    + destruct (t =? AT_CustomBinary) eqn:Eb.
+      * apply N.eqb_eq in Eb. subst t. injection Hk as Hk; subst k. apply group_custom_bin_chunked, Hwf.
+      * destruct (t =? AT_CustomText) eqn:Et; [|discriminate].
+        apply N.eqb_eq in Et. subst t. injection Hk as Hk; subst k. apply group_custom_text_chunked, Hwf.
+  - apply (group_num_whole c t k); assumption.
+  - apply group_bit_whole; assumption.
+  - apply group_array_text, Ht.
+  - apply group_string_array, Ht.
+  - apply group_media.
+  - apply group_custom_bin.
+  - apply group_custom_text.
+Qed.
+
+(* ------------------------------------------------------------------ *)
+(** * The text does not depend on the delivery *)
+
+Lemma sim_run c es1 es2 : chunk_equiv true es1 es2 ->
+  forall s1 s2 s1', R s1 s2 -> run c s1 es1 = Some s1' -> bad s1' = false ->
+  exists s2', run c s2 es2 = Some s2' /\ R s1' s2'.
+Proof.
+  induction 1 as [| e a b Hp Heq IH | h d g1 g2 a b Hd1 Hd2 Heq IH]; intros s1 s2 s1' HR Hrun Hb.
+  - injection Hrun as <-. exists s2. split; [reflexivity | exact HR].
+  - cbn [run] in Hrun |- *. destruct (step c s1 e) as [m1|] eqn:Es1; cbn [bind] in Hrun; [|discriminate].
+    pose proof (run_bad_false c a m1 s1' Hrun Hb) as Hbm.
+    pose proof (good_step_plain c e Hp s1 s2 HR) as Hg. cbv beta in Hg. rewrite Es1 in Hg. cbn in Hg.
+    destruct Hg as [Hbad | (m2 & Es2 & HRm)]; [congruence|].
+    rewrite Es2. cbn [bind]. apply (IH m1 m2 s1' HRm Hrun Hb).
+  - rewrite run_app in Hrun |- *.
+    destruct (run c s1 g1) as [m1|] eqn:Eg1; cbn [bind] in Hrun; [|discriminate].
+    pose proof (run_bad_false c a m1 s1' Hrun Hb) as Hbm.
+    pose proof (delivery_canon c h d g1 Hd1 s1) as H1. rewrite Eg1 in H1.
+    destruct (canon c h d s1) as [m1c|] eqn:Ec1; cbn in H1; [|contradiction].
+    pose proof (good_canon c h d s1 s2 HR) as Hg. rewrite Ec1 in Hg. cbn in Hg.
+    destruct Hg as [Hbad | (m2c & Ec2 & HRc)].
+    { rewrite <- (R_bad _ _ H1) in Hbad. congruence. }
+    pose proof (delivery_canon c h d g2 Hd2 s2) as H2. rewrite Ec2 in H2.
+    destruct (run c s2 g2) as [m2|] eqn:Eg2; cbn in H2; [|contradiction].
+    cbn [bind]. apply (IH m1 m2 s1'); [|exact Hrun | exact Hb].
+    eapply R_trans; [exact H1|]. eapply R_trans; [exact HRc|]. apply R_sym, H2.
+Qed.
+
+Lemma chunk_equiv_sym strict a b : chunk_equiv strict a b -> chunk_equiv strict b a.
+Proof. induction 1; econstructor; eauto. Qed.
+
+Lemma chunk_equiv_refl_plain strict es : forallb plain_event es = true -> chunk_equiv strict es es.
+Proof.
+  induction es as [|e es IH]; cbn; intro H; [constructor|].
+  apply andb_true_iff in H. destruct H. constructor; auto.
+Qed.
+
+Lemma R_out a b : R a b -> out_of a = out_of b.
+Proof. intro H. unfold out_of. rewrite (R_rout _ _ H). reflexivity. Qed.
+
+Lemma encode_dir c es1 es2 t :
+  chunk_equiv true es1 es2 -> col_clean c es1 = true -> cte_encode c es1 = Some t -> cte_encode c es2 = Some t.
+Proof.
+  unfold cte_encode, col_clean. intros Heq Hc He.
+  destruct (run c est0 es1) as [s1'|] eqn:E1; [|discriminate]. injection He as <-.
+  apply negb_true_iff in Hc.
+  destruct (sim_run c es1 es2 Heq est0 est0 s1' (R_refl _) E1 Hc) as (s2' & E2 & HR).
+  rewrite E2. f_equal. symmetry. apply R_out, HR.
+Qed.
+
+(* Two streams that differ only in how arrays are delivered give the same text
+   (or both make the encoder panic), provided neither run reads Column while it
+   depends on the split of a media / custom-binary array. *)
+Theorem cte_text_chunk_invariant c es1 es2 :
+  chunk_equiv true es1 es2 -> col_clean c es1 = true -> col_clean c es2 = true ->
+  cte_encode c es1 = cte_encode c es2.
+Proof.
+  intros Heq H1 H2.
+  destruct (cte_encode c es1) as [t1|] eqn:E1.
+  - symmetry. apply (encode_dir c es1 es2 t1 Heq H1 E1).
+  - destruct (cte_encode c es2) as [t2|] eqn:E2; [|reflexivity].
+    rewrite (encode_dir c es2 es1 t2 (chunk_equiv_sym _ _ _ Heq) H2 E2) in E1. discriminate.
+Qed.
+
+(* [col_clean] is itself invariant *)
+Lemma col_clean_dir c es1 es2 :
+  chunk_equiv true es1 es2 -> col_clean c es1 = true -> run c est0 es1 <> None -> col_clean c es2 = true.
+Proof.
+  unfold col_clean. intros Heq Hc Hn.
+  destruct (run c est0 es1) as [s1'|] eqn:E1; [|congruence].
+  apply negb_true_iff in Hc.
+  destruct (sim_run c es1 es2 Heq est0 est0 s1' (R_refl _) E1 Hc) as (s2' & E2 & HR).
+  rewrite E2. rewrite <- (R_bad _ _ HR), Hc. reflexivity.
+Qed.
+
+(* ------------------------------------------------------------------ *)
+(** * The property as stated fails: empty data events in media / custom binary *)
+
+Definition chunk_invariance (strict : bool) : Prop :=
+  forall c es1 es2, chunk_equiv strict es1 es2 -> col_clean c es1 = true -> col_clean c es2 = true ->
+                    cte_encode c es1 = cte_encode c es2.
+
+Definition w_media : bytes := [97; 47; 98].   (* a/b *)
+Definition w_hex_1 : list event :=
+  [EBeginDoc; EVersion 0; EMediaBegin w_media; EArrayChunk 1 false; EArrayData [66]; EEndDoc].
+Definition w_hex_2 : list event :=
+  [EBeginDoc; EVersion 0; EMediaBegin w_media; EArrayChunk 1 false; EArrayData []; EArrayData [66]; EEndDoc].
+Definition w_cbin_1 : list event :=
+  [EBeginDoc; EVersion 0; ECustomBin 3 [53; 32]; EEndDoc].
+Definition w_cbin_2 : list event :=
+  [EBeginDoc; EVersion 0; ECustomBegin AT_CustomBinary 3; EArrayChunk 2 false; EArrayData [53]; EArrayData []; EArrayData [32]; EEndDoc].
+
+Ltac wf_chunk := cbn; repeat split; intros; try discriminate; try reflexivity; try lia; try (repeat constructor; discriminate).
+
+Lemma w_hex_equiv : chunk_equiv false w_hex_1 w_hex_2.
+Proof.
+  unfold w_hex_1, w_hex_2. do 2 (apply ce_plain; [reflexivity|]).
+  apply (ce_array false (HMedia w_media) (ABytes [66])
+           (EMediaBegin w_media :: chunks_events [(1, false, [[66]])])
+           (EMediaBegin w_media :: chunks_events [(1, false, [[]; [66]])]) [EEndDoc] [EEndDoc]).
+  - apply (dl_chunked false (HMedia w_media) KHex [(1, false, [[66]])]); [reflexivity | wf_chunk].
+  - apply (dl_chunked false (HMedia w_media) KHex [(1, false, [[]; [66]])]); [reflexivity | wf_chunk].
+  - apply ce_plain; [reflexivity | constructor].
+Qed.
+
+Lemma w_cbin_equiv : chunk_equiv false w_cbin_1 w_cbin_2.
+Proof.
+  unfold w_cbin_1, w_cbin_2. do 2 (apply ce_plain; [reflexivity|]).
+  apply (ce_array false (HCustom AT_CustomBinary 3) (ABytes [53; 32])
+           [ECustomBin 3 [53; 32]]
+           (ECustomBegin AT_CustomBinary 3 :: chunks_events [(2, false, [[53]; []; [32]])]) [EEndDoc] [EEndDoc]).
+  - apply dl_custom_bin.
+  - apply (dl_chunked false (HCustom AT_CustomBinary 3) KHex [(2, false, [[53]; []; [32]])]); [reflexivity | wf_chunk].
+  - apply ce_plain; [reflexivity | constructor].
+Qed.
+
+Lemma w_hex_texts :
+  cte_encode default_ccfg w_hex_1 = Some [99; 48; 10; 64; 97; 47; 98; 91; 52; 50; 93] /\         (* c0\n@a/b[42] *)
+  cte_encode default_ccfg w_hex_2 = Some [99; 48; 10; 64; 97; 47; 98; 91; 32; 52; 50; 93] /\     (* c0\n@a/b[ 42] *)
+  col_clean default_ccfg w_hex_1 = true /\ col_clean default_ccfg w_hex_2 = true.
+Proof. vm_compute. repeat split. Qed.
+
+Lemma w_cbin_texts :
+  cte_encode default_ccfg w_cbin_1 = Some [99; 48; 10; 64; 51; 91; 51; 53; 32; 50; 48; 93] /\        (* c0\n@3[35 20] *)
+  cte_encode default_ccfg w_cbin_2 = Some [99; 48; 10; 64; 51; 91; 51; 53; 32; 32; 50; 48; 93] /\    (* c0\n@3[35  20] *)
+  col_clean default_ccfg w_cbin_1 = true /\ col_clean default_ccfg w_cbin_2 = true.
+Proof. vm_compute. repeat split. Qed.
+
+Lemma chunk_invariance_full_refuted : ~ chunk_invariance false.
+Proof.
+  intro H. destruct w_hex_texts as (E1 & E2 & C1 & C2).
+  specialize (H default_ccfg w_hex_1 w_hex_2 w_hex_equiv C1 C2). rewrite E1, E2 in H. discriminate.
+Qed.
+
+Lemma chunk_invariance_full_refuted_custom_binary :
+  exists es1 es2, chunk_equiv false es1 es2 /\ col_clean default_ccfg es1 = true /\ col_clean default_ccfg es2 = true /\
+                  cte_encode default_ccfg es1 <> cte_encode default_ccfg es2.
+Proof.
+  exists w_cbin_1, w_cbin_2. destruct w_cbin_texts as (E1 & E2 & C1 & C2).
+  split; [apply w_cbin_equiv|]. split; [exact C1|]. split; [exact C2|]. rewrite E1, E2; discriminate.
+Qed.
+
+Lemma chunk_invariance_strict : chunk_invariance true.
+Proof. intros c es1 es2. apply cte_text_chunk_invariant. Qed.
+
+(* ------------------------------------------------------------------ *)
+(** * The hypotheses are satisfiable: a worked instance *)
+
+(* a list holding a u16 array, a string with a two-byte character and a bit array;
+   delivered whole, and delivered in chunks with elements, the character and
+   the bits split between data events *)
+Definition ex_whole : list event :=
+  [EBeginDoc; EVersion 0; EList;
+   EArray AT_Uint16 3 [1; 0; 2; 0; 255; 255];
+   EStringArray AT_String [97; 195; 169; 34];
+   EArray AT_Bit 11 [5; 3];
+   EMedia w_media [1; 2; 3];
+   EEnd; EEndDoc].
+
+Definition ex_chunked : list event :=
+  [EBeginDoc; EVersion 0; EList;
+   EArrayBegin AT_Uint16; EArrayChunk 2 true; EArrayData [1]; EArrayData [0; 2]; EArrayData [];  EArrayData [0];
+                          EArrayChunk 0 true; EArrayChunk 1 false; EArrayData [255]; EArrayData [255];
+   EArrayBegin AT_String; EArrayChunk 4 false; EArrayData [97; 195]; EArrayData [169; 34];
+   EArrayBegin AT_Bit; EArrayChunk 3 true; EArrayData [5]; EArrayChunk 8 false; EArrayData [96];
+   EMediaBegin w_media; EArrayChunk 1 true; EArrayData [1]; EArrayChunk 2 false; EArrayData [2]; EArrayData [3];
+   EEnd; EEndDoc].
+
+Lemma ex_equiv : chunk_equiv true ex_whole ex_chunked.
+Proof.
+  unfold ex_whole, ex_chunked. do 3 (apply ce_plain; [reflexivity|]).
+  apply (ce_array true (HArr AT_Uint16) (ABytes [1; 0; 2; 0; 255; 255]) [EArray AT_Uint16 3 [1; 0; 2; 0; 255; 255]]
+           (EArrayBegin AT_Uint16 :: chunks_events [(2, true, [[1]; [0; 2]; []; [0]]); (0, true, []); (1, false, [[255]; [255]])])).
+  { apply (dl_array_num true AT_Uint16 NU16); [reflexivity | lia | reflexivity]. }
+  { apply (dl_chunked true (HArr AT_Uint16) (KNum NU16) [(2, true, [[1]; [0; 2]; []; [0]]); (0, true, []); (1, false, [[255]; [255]])]); [reflexivity | wf_chunk]. }
+  apply (ce_array true (HArr AT_String) (ABytes [97; 195; 169; 34]) [EStringArray AT_String [97; 195; 169; 34]]
+           (EArrayBegin AT_String :: chunks_events [(4, false, [[97; 195]; [169; 34]])])).
+  { apply dl_string_array. reflexivity. }
+  { apply (dl_chunked true (HArr AT_String) KStr [(4, false, [[97; 195]; [169; 34]])]); [reflexivity | wf_chunk]. }
+  apply (ce_array true (HArr AT_Bit) (ABits [true; false; true; false; false; false; false; false; true; true; false]) [EArray AT_Bit 11 [5; 3]]
+           (EArrayBegin AT_Bit :: chunks_events [(3, true, [[5]]); (8, false, [[96]])])).
+  { apply (dl_array_bit true 11 [5; 3]); [lia | reflexivity]. }
+  { apply (dl_chunked true (HArr AT_Bit) KBit [(3, true, [[5]]); (8, false, [[96]])]); [reflexivity | wf_chunk]. }
+  apply (ce_array true (HMedia w_media) (ABytes [1; 2; 3]) [EMedia w_media [1; 2; 3]]
+           (EMediaBegin w_media :: chunks_events [(1, true, [[1]]); (2, false, [[2]; [3]])])).
+  { apply dl_media. }
+  { apply (dl_chunked true (HMedia w_media) KHex [(1, true, [[1]]); (2, false, [[2]; [3]])]); [reflexivity | wf_chunk]. }
+  do 2 (apply ce_plain; [reflexivity|]). constructor.
+Qed.
+
+Lemma ex_clean : col_clean default_ccfg ex_whole = true /\ col_clean default_ccfg ex_chunked = true.
+Proof. vm_compute. split; reflexivity. Qed.
+
+Lemma ex_text : cte_encode default_ccfg ex_chunked = cte_encode default_ccfg ex_whole /\ cte_encode default_ccfg ex_whole <> None.
+Proof. vm_compute. split; [reflexivity | discriminate]. Qed.
+
+(* ------------------------------------------------------------------ *)
+(** * The checkable description is sound *)
+
+Lemma nonemptyb_true {A} (l : list A) : nonemptyb l = true -> l <> [].
+Proof. destruct l; [discriminate | discriminate]. Qed.
+
+Lemma chunk_wfb_sound k c : chunk_wfb k c = true -> chunk_wf true k c.
+Proof.
+  destruct c as [[n m] ds]. unfold chunk_wfb, chunk_wf. intro H.
+  apply andb_true_iff in H. destruct H as [H Hhex]. apply andb_true_iff in H. destruct H as [Hn Hb].
+  apply N.ltb_lt in Hn. split; [exact Hn|]. destruct (N.eqb_spec n 0) as [->|Hnz].
+  - assert (ds = []) by (destruct ds; [reflexivity | discriminate]). subst ds.
+    split; [reflexivity|]. split; [intro; lia|]. intros _ _. constructor.
+  - apply andb_true_iff in Hb. destruct Hb as [Hb Hlen]. apply andb_true_iff in Hb. destruct Hb as [Hne Hlast].
+    split; [intro; congruence|]. split.
+    + intros _. split; [apply nonemptyb_true, Hne|]. split; [apply nonemptyb_true, Hlast | apply Nat.eqb_eq, Hlen].
+    + intros _ ->. apply Forall_forall. intros d Hd. rewrite forallb_forall in Hhex. apply nonemptyb_true, Hhex, Hd.
+Qed.
+
+Lemma chunks_wfb_sound k cs : chunks_wfb k cs = true -> chunks_wf true k cs.
+Proof.
+  induction cs as [|c r IH]; [discriminate|]. cbn [chunks_wfb chunks_wf]. intro H.
+  apply andb_true_iff in H. destruct H as [Hc Hr]. split; [apply chunk_wfb_sound, Hc|].
+  destruct r as [|c2 r].
+  - apply negb_true_iff in Hr. exact Hr.
+  - apply andb_true_iff in Hr. destruct Hr as [Hm Hr]. split; [exact Hm | apply IH, Hr].
+Qed.
+
+Lemma adata_eqb_eq a b : adata_eqb a b = true -> a = b.
+Proof.
+  destruct a, b; cbn; try discriminate; intro H.
+  - apply bytes_eqb_eq in H. congruence.
+  - f_equal. revert l0 H. induction l as [|x l IH]; intros [|y l0] H; cbn in H; try discriminate; [reflexivity|].
+    apply andb_true_iff in H. destruct H as [H1 H2]. apply Bool.eqb_prop in H1. subst. f_equal. apply IH, H2.
+Qed.
+
+Lemma dform_data_sound h f d : dform_data h f = Some d -> delivery true h d (dform_events h f).
+Proof.
+  destruct f as [e|cs]; cbn [dform_data dform_events].
+  - destruct h as [t|mt|t ct], e; try discriminate.
+    + (* EArray *)
+      destruct (N.eqb_spec t t0) as [<-|]; cbn [negb]; [|discriminate].
+      destruct (N.eqb_spec t AT_Bit) as [->|Hb].
+      * destruct ((count <? 2 ^ 64) && (length data =? N.to_nat ((count + 7) / 8))%nat) eqn:E; [|discriminate].
+        intros [= <-]. apply andb_true_iff in E. destruct E as [E1 E2]. apply N.ltb_lt in E1. apply Nat.eqb_eq in E2.
+        apply dl_array_bit; assumption.
+      * destruct (is_text_type t) eqn:Et; [intros [= <-]; apply dl_array_text, Et|].
+        destruct (nkind_of t) as [k|] eqn:Ek; [|discriminate].
+        destruct ((count <? 2 ^ 64) && (length data =? N.to_nat count * nk_width k)%nat) eqn:E; [|discriminate].
+        intros [= <-]. apply andb_true_iff in E. destruct E as [E1 E2]. apply N.ltb_lt in E1. apply Nat.eqb_eq in E2.
+        apply (dl_array_num true t k); assumption.
+    + (* EStringArray *)
+      destruct ((t =? t0) && is_text_type t) eqn:E; [|discriminate]. intros [= <-].
+      apply andb_true_iff in E. destruct E as [E1 E2]. apply N.eqb_eq in E1. subst t0. apply dl_string_array, E2.
+    + (* EMedia *)
+      destruct (bytes_eqb mt mediatype) eqn:E; [|discriminate]. intros [= <-]. apply bytes_eqb_eq in E. subst. apply dl_media.
+    + (* ECustomBin *)
+      destruct ((t =? AT_CustomBinary) && (ct =? ct0)) eqn:E; [|discriminate]. intros [= <-].
+      apply andb_true_iff in E. destruct E as [E1 E2]. apply N.eqb_eq in E1, E2. subst. apply dl_custom_bin.
+    + (* ECustomText *)
+      destruct ((t =? AT_CustomText) && (ct =? ct0)) eqn:E; [|discriminate]. intros [= <-].
+      apply andb_true_iff in E. destruct E as [E1 E2]. apply N.eqb_eq in E1, E2. subst. apply dl_custom_text.
+  - destruct (hkind h) as [k|] eqn:Ek; [|discriminate].
+    destruct (chunks_wfb k cs) eqn:Ew; [|discriminate]. intros [= <-].
+    apply dl_chunked; [exact Ek | apply chunks_wfb_sound, Ew].
+Qed.
+
+Theorem segs_equiv segs : forallb seg_okb segs = true -> chunk_equiv true (segs_events true segs) (segs_events false segs).
+Proof.
+  induction segs as [|s r IH]; cbn [forallb]; intro H; [constructor|].
+  apply andb_true_iff in H. destruct H as [Hs Hr]. specialize (IH Hr).
+  unfold segs_events. cbn [flat_map]. fold (segs_events true r). fold (segs_events false r).
+  destruct s as [e|h f1 f2]; cbn [seg_okb seg_events] in *.
+  - apply ce_plain; assumption.
+  - destruct (dform_data h f1) as [d1|] eqn:E1; [|discriminate].
+    destruct (dform_data h f2) as [d2|] eqn:E2; [|discriminate].
+    apply adata_eqb_eq in Hs. subst d2.
+    apply (ce_array true h d1); [apply dform_data_sound, E1 | apply dform_data_sound, E2 | exact IH].
+Qed.
+
+(* what a passing equivalence case establishes about the model *)
+Corollary equiv_case_texts c segs :
+  forallb seg_okb segs = true ->
+  col_clean c (segs_events true segs) = true -> col_clean c (segs_events false segs) = true ->
+  cte_encode c (segs_events true segs) = cte_encode c (segs_events false segs).
+Proof. intros H. apply cte_text_chunk_invariant, segs_equiv, H. Qed.
+
+(* ------------------------------------------------------------------ *)
+(** * Streams without media / custom binary never depend on Column being exact *)
+
+Definition clean (s : est) : Prop := dirty s = false /\ bad s = false.
+Definition calmT (f : est -> est) : Prop := forall s, clean s -> clean (f s).
+Definition calmO (f : est -> option est) : Prop := forall s s', clean s -> f s = Some s' -> clean s'.
+
+(* the events whose processing sets [dirty] *)
+Definition sets_dirty (e : event) : bool :=
+  match e with
+  | EMedia _ _ | ECustomBin _ _ | EMediaBegin _ => true
+  | ECustomBegin t _ => t =? AT_CustomBinary
+  | _ => false
+  end.
+
+Lemma calmO_T f : calmT f -> calmO (fun s => Some (f s)).
+Proof. intros H s s' Hc [= <-]. apply H, Hc. Qed.
+Lemma calm_bind f g : calmO f -> calmO g -> calmO (fun s => bind (f s) g).
+Proof. intros Hf Hg s s' Hc E. destruct (f s) as [m|] eqn:Ef; cbn in E; [|discriminate]. eapply Hg; [eapply Hf; eauto | exact E]. Qed.
+Lemma calmT_comp f g : calmT f -> calmT g -> calmT (fun s => g (f s)).
+Proof. intros Hf Hg s Hc. apply Hg, Hf, Hc. Qed.
+
+Ltac calm_prim := let r := fresh in let c := fresh in let i := fresh in let st := fresh in let ch := fresh in let e := fresh in let d := fresh in let b := fresh in intros [r c i st ch e d b] [? ?]; cbn in *; subst; split; reflexivity.
+
+Lemma calm_emit_cd bs d : calmT (emit_cd bs d). Proof. calm_prim. Qed.
+Lemma calm_emit_nolf bs : calmT (emit_nolf bs). Proof. apply calm_emit_cd. Qed.
+Lemma calm_emit_raw bs : calmT (emit_raw bs). Proof. apply calm_emit_cd. Qed.
+Lemma calm_emit_setcol bs c : calmT (emit_setcol bs c). Proof. calm_prim. Qed.
+Lemma calm_emit_plf bs : calmT (emit_plf bs).
+Proof. unfold emit_plf. destruct (plf_col bs); [apply calm_emit_setcol | apply calm_emit_raw]. Qed.
+Lemma calm_emit_rune lf r : calmT (emit_rune lf r).
+Proof. unfold emit_rune. destruct (lf && (r =? 10)); [apply calm_emit_setcol | apply calm_emit_nolf]. Qed.
+Lemma calm_set_stack st : calmT (set_stack st). Proof. calm_prim. Qed.
+Lemma calm_set_ind i : calmT (set_ind i). Proof. calm_prim. Qed.
+Lemma calm_set_cho b : calmT (set_cho b). Proof. calm_prim. Qed.
+Lemma calm_upd_en f : calmT (upd_en f). Proof. calm_prim. Qed.
+Lemma calm_push d : calmT (push d). Proof. calm_prim. Qed.
+Lemma calm_note_read : calmT note_read. Proof. calm_prim. Qed.
+Lemma calm_newline_indent : calmT newline_indent.
+Proof. intros s Hc. unfold newline_indent. apply calm_emit_nolf, calm_emit_setcol, Hc. Qed.
+Lemma calm_indent_if_origin : calmT indent_if_origin.
+Proof.
+  intros s Hc. unfold indent_if_origin. pose proof (calm_note_read s Hc) as H.
+  destruct (at_origin (note_read s)); [apply calm_emit_nolf, H | exact H].
+Qed.
+Lemma calm_return_to_origin : calmT return_to_origin.
+Proof.
+  intros s Hc. unfold return_to_origin. pose proof (calm_note_read s Hc) as H.
+  destruct (at_origin (note_read s)); [exact H | apply calm_emit_nolf, calm_emit_setcol, H].
+Qed.
+Lemma calm_fold {A} (F : est -> A -> est) (l : list A) : (forall x, calmT (fun s => F s x)) -> calmT (fun s => fold_left F l s).
+Proof. intro H. induction l as [|x l IH]; intros s Hc; cbn; [exact Hc | apply IH, H, Hc]. Qed.
+Lemma calm_write_quoted lf v : calmT (write_quoted lf v).
+Proof.
+  intros s Hc. unfold write_quoted. destruct v as [|b v]; [apply calm_emit_nolf, Hc|].
+  destruct (forallb rune_safe (runes (b :: v))).
+  - apply calm_emit_nolf. destruct lf; [apply calm_emit_plf | apply calm_emit_nolf]; apply calm_emit_nolf, Hc.
+  - apply calm_emit_nolf. apply calm_fold; [|apply calm_emit_nolf, Hc].
+    intros r s0 H0. destruct (rune_safe r); [apply calm_emit_rune | apply calm_emit_nolf]; exact H0.
+Qed.
+Lemma calm_space_if_hw : calmT space_if_hw.
+Proof. intros s Hc. unfold space_if_hw. apply calm_upd_en. destruct (ehw (en s)); [apply calm_emit_nolf, Hc | exact Hc]. Qed.
+
+Lemma calm_before_value : calmO before_value.
+Proof.
+  intros s s' Hc E. unfold before_value in E. destruct (stack s) as [|d st]; [discriminate|]. injection E as <-.
+  destruct d; first [exact Hc | apply calm_newline_indent, Hc | apply calm_indent_if_origin, Hc].
+Qed.
+Lemma calm_before_comment : calmO before_comment.
+Proof.
+  intros s s' Hc E. unfold before_comment in E. destruct (stack s) as [|d st]; [discriminate|]. injection E as <-.
+  destruct d; first [exact Hc | apply calm_newline_indent, Hc].
+Qed.
+Lemma calm_after_comment : calmO after_comment.
+Proof.
+  intros s s' Hc E. unfold after_comment in E. destruct (stack s) as [|d st]; [discriminate|]. injection E as <-.
+  apply calm_set_cho. destruct d; first [exact Hc | apply calm_newline_indent, Hc | apply calm_return_to_origin, Hc].
+Qed.
+Lemma calm_after_value : calmO after_value.
+Proof.
+  intros s s' Hc E. unfold after_value in E. destruct (after_stack (stack s)) as [[st sep]|]; [|discriminate]. injection E as <-.
+  apply calm_set_cho, calm_set_stack. destruct sep; [apply calm_emit_nolf, Hc | exact Hc].
+Qed.
+Lemma calm_unstack : calmO unstack.
+Proof.
+  intros s s' Hc E. unfold unstack in E. destruct (stack s) as [|d [|d' st]]; try discriminate. injection E as <-. apply calm_set_stack, Hc.
+Qed.
+Lemma calm_unindent : calmO unindent.
+Proof. intros s s' Hc E. unfold unindent in E. destruct (ind s <? 4); [discriminate|]. injection E as <-. apply calm_set_ind, Hc. Qed.
+Lemma calm_nl_if_cho s : clean s -> clean (if cho s then newline_indent s else s).
+Proof. intro Hc. destruct (cho s); [apply calm_newline_indent, Hc | exact Hc]. Qed.
+Lemma calm_close_container closer : calmO (close_container closer).
+Proof.
+  unfold close_container. apply calm_bind; [apply calm_unindent|].
+  intros s s' Hc E. destruct (unstack _) as [m|] eqn:Eu; cbn [bind] in E; [|discriminate].
+  eapply calm_after_value; [|exact E]. eapply calm_unstack; [|exact Eu]. apply calm_emit_nolf, calm_nl_if_cho, Hc.
+Qed.
+Lemma calm_end_container : calmO end_container.
+Proof.
+  intros s s' Hc E. unfold end_container in E. destruct (stack s) as [|d st]; [discriminate|].
+  destruct d; first [discriminate E | injection E as <-; exact Hc | eapply calm_close_container; eassumption | idtac].
+  destruct (unindent s) as [m|] eqn:Eu; cbn [bind] in E; [|discriminate].
+  pose proof (calm_unindent s m Hc Eu) as Hm.
+  destruct (unstack _) as [m2|] eqn:Eu2; cbn [bind] in E; [|discriminate]. injection E as <-.
+  apply calm_newline_indent. eapply calm_unstack; [|exact Eu2]. apply calm_emit_nolf, calm_nl_if_cho, Hm.
+Qed.
+Lemma calm_open_container reset opener d : calmO (open_container reset opener d).
+Proof.
+  unfold open_container. apply calm_bind; [apply calm_before_value|].
+  intros s s' Hc [= <-]. apply calm_push, calm_set_ind, calm_emit_nolf. destruct reset; [apply calm_set_cho, Hc | exact Hc].
+Qed.
+Lemma calm_scalar t d : calmO (scalar t d).
+Proof.
+  unfold scalar. apply calm_bind; [apply calm_before_value|].
+  intros s s' Hc E. eapply calm_after_value; [|exact E]. apply calm_emit_cd, Hc.
+Qed.
+Lemma calm_outer s s' :
+  clean s ->
+  match eouter (en s) with ONone => Some s | OAfter => after_value s | OUnstackAfter => bind (unstack s) after_value end = Some s' ->
+  clean s'.
+Proof.
+  intros Hc E. destruct (eouter (en s)).
+  - injection E as <-. exact Hc.
+  - eapply calm_after_value; eauto.
+  - eapply (calm_bind unstack after_value calm_unstack calm_after_value); eauto.
+Qed.
+Lemma calm_end_array : calmO end_array.
+Proof.
+  intros s s' Hc E. unfold end_array in E.
+  destruct (ecomp (en s)) as [| |lf]; cbn [bind] in E; [discriminate| |].
+  - eapply calm_outer; [|exact E]. apply calm_emit_nolf, Hc.
+  - eapply calm_outer; [|exact E]. apply calm_write_quoted, Hc.
+Qed.
+Lemma calm_begin_chunk n more : calmO (begin_chunk n more).
+Proof.
+  intros s s' Hc E. unfold begin_chunk in E.
+  destruct ((n =? 0) && negb more); [eapply calm_end_array; [|exact E] | injection E as <-]; apply calm_upd_en, Hc.
+Qed.
+Lemma calm_finish_if_done : calmO finish_if_done.
+Proof.
+  intros s s' Hc E. unfold finish_if_done in E.
+  destruct ((erem (en s) =? 0) && negb (emore (en s))); [eapply calm_end_array; eauto | injection E as <-; exact Hc].
+Qed.
+Lemma calm_emit_elems c k es : calmO (emit_elems c k es).
+Proof.
+  induction es as [|e r IH]; intros s s' Hc E; cbn in E; [injection E as <-; exact Hc|].
+  destruct (num_elem c k e) as [[t d]|]; [|discriminate]. eapply IH; [|exact E]. apply calm_emit_cd, calm_space_if_hw, Hc.
+Qed.
+Lemma calm_add_elems c d : calmO (add_elems c d).
+Proof.
+  intros s s' Hc E. unfold add_elems in E. destruct (ek (en s)); try discriminate.
+  - injection E as <-. apply calm_upd_en, Hc.
+  - injection E as <-. apply calm_emit_raw, calm_space_if_hw, Hc.
+  - eapply calm_emit_elems; eauto.
+Qed.
+Lemma calm_tail_of c w d : calmO (tail_of c w d).
+Proof.
+  unfold tail_of. apply calm_bind; [apply calm_add_elems|].
+  intros s s' Hc E. eapply calm_finish_if_done; [|exact E]. apply calm_upd_en, Hc.
+Qed.
+Lemma calm_split_tail_of c w d : calmO (split_tail_of c w d).
+Proof.
+  intros s s' Hc E. unfold split_tail_of in E. cbv zeta in E.
+  destruct (_ =? 0)%nat; [eapply calm_tail_of; eauto|]. eapply calm_tail_of; [|exact E]. apply calm_upd_en, Hc.
+Qed.
+Lemma calm_add_data_bytes c w d : calmO (add_data_bytes c w d).
+Proof.
+  intros s s' Hc E. unfold add_data_bytes in E.
+  destruct (1 <? w)%nat; [|eapply calm_tail_of; eauto].
+  cbv zeta in E. destruct (eleft (en s)) as [|l0 lo]; [eapply calm_split_tail_of; eauto|].
+  destruct (w <? length (l0 :: lo))%nat; [discriminate|].
+  destruct (length d <? w - length (l0 :: lo))%nat.
+  - injection E as <-. apply calm_upd_en, Hc.
+  - destruct (add_elems c _ s) as [m|] eqn:Ea; cbn [bind] in E; [|discriminate].
+    eapply calm_split_tail_of; [|exact E]. apply calm_upd_en. eapply calm_add_elems; eauto.
+Qed.
+Lemma calm_add_data c d : calmO (add_data c d).
+Proof.
+  intros s s' Hc E. rewrite add_data_unfold in E.
+  destruct (ek (en s)) eqn:Ek; [discriminate | | | |]; try (eapply calm_add_data_bytes; eauto; fail).
+  destruct (bool_data (erem (en s)) d) as [o r'].
+  eapply calm_finish_if_done; [|exact E]. apply calm_upd_en, calm_emit_nolf, Hc.
+Qed.
+Lemma calm_engine_begin_array c t o : calmO (engine_begin_array c t o).
+Proof.
+  intros s s' Hc E. unfold engine_begin_array in E.
+  repeat match type of E with
+         | (if ?x then _ else _) = _ => destruct x
+         | match ?x with Some _ => _ | None => _ end = _ => destruct x
+         end; try discriminate; injection E as <-;
+    repeat first [apply calm_emit_nolf | apply calm_upd_en]; exact Hc.
+Qed.
+Lemma calm_ctx_begin_array c t : calmO (ctx_begin_array c t).
+Proof.
+  intros s s' Hc E. unfold ctx_begin_array in E. destruct (is_string_type t).
+  - eapply calm_engine_begin_array; eauto.
+  - eapply calm_engine_begin_array; [|exact E]. apply calm_push, Hc.
+Qed.
+Lemma calm_bv_then (f : est -> option est) : calmO f -> calmO (fun s => bind (before_value s) f).
+Proof. intro H. apply calm_bind; [apply calm_before_value | exact H]. Qed.
+
+Lemma calm_step c e : sets_dirty e = false -> calmO (fun s => step c s e).
+Proof.
+  intro Hd. destruct e; try discriminate Hd; cbn [step];
+    try (apply calm_scalar); try (apply calm_open_container); try (intros s s' Hc [= <-]; exact Hc).
+  - intros s s' Hc [= <-]. apply calm_newline_indent, calm_emit_raw, Hc.
+  - apply calm_bind; [apply calm_before_comment|].
+    intros s s' Hc E. eapply calm_after_comment; [|exact E].
+    destruct multi; [apply calm_emit_nolf, calm_emit_plf, calm_emit_nolf, Hc | apply calm_emit_nolf, calm_emit_nolf, Hc].
+  - destruct b; apply calm_scalar.
+  - destruct (0 <=? z)%Z; apply calm_scalar.
+  - destruct v; apply calm_scalar.
+  - destruct (write_float bits); apply calm_scalar.
+  - destruct v as [[neg m ex pr|neg]|]; [| destruct neg; apply calm_scalar | apply calm_scalar].
+    destruct (m =? 0); cbv zeta; apply calm_scalar.
+  - destruct v as [d|]; cbv zeta; apply calm_scalar.
+  - destruct signaling; apply calm_scalar.
+  - destruct (length b =? 16)%nat; [apply calm_scalar | intros s s' _ [=]].
+  - apply calm_end_container.
+  - apply calm_bv_then. intros s s' Hc [= <-]. apply calm_push, calm_emit_nolf, Hc.
+  - (* EArray *)
+    apply calm_bv_then. apply calm_bind; [|apply calm_after_value].
+    intros s s' Hc E.
+    destruct (t =? AT_String); [injection E as <-; apply calm_write_quoted, Hc|].
+    destruct (t =? AT_ResourceID); [injection E as <-; apply calm_write_quoted, calm_emit_nolf, Hc|].
+    destruct (t =? AT_ReferenceRemote); [injection E as <-; apply calm_write_quoted, calm_emit_nolf, Hc|].
+    destruct (engine_begin_array c t ONone s) as [m|] eqn:E1; cbn [bind] in E; [|discriminate].
+    destruct (begin_chunk count false m) as [m2|] eqn:E2; cbn [bind] in E; [|discriminate].
+    assert (Hm2 : clean m2).
+    { eapply calm_begin_chunk; [|exact E2]. eapply calm_engine_begin_array; eauto. }
+    destruct (0 <? count); [eapply calm_add_data; eauto | injection E as <-; exact Hm2].
+  - (* EStringArray *)
+    apply calm_bv_then. apply calm_bind; [|apply calm_after_value].
+    intros s s' Hc E.
+    destruct (t =? AT_String); [injection E as <-; apply calm_write_quoted, Hc|].
+    destruct (t =? AT_ResourceID); [injection E as <-; apply calm_write_quoted, calm_emit_nolf, Hc|].
+    destruct (t =? AT_ReferenceRemote); [injection E as <-; apply calm_write_quoted, calm_emit_nolf, Hc|].
+    discriminate.
+  - (* ECustomText *)
+    apply calm_bv_then. intros s s' Hc E. eapply calm_after_value; [|exact E]. apply calm_write_quoted, calm_emit_nolf, Hc.
+  - apply calm_bv_then, calm_ctx_begin_array.
+  - (* ECustomBegin, not binary *)
+    cbn [sets_dirty] in Hd. apply calm_bv_then. intros s s' Hc E. rewrite Hd in E.
+    destruct (t =? AT_CustomText); [injection E as <-; apply calm_emit_nolf, calm_upd_en, Hc | discriminate].
+  - apply calm_begin_chunk.
+  - apply calm_add_data.
+Qed.
+
+Lemma calm_run c es : forallb (fun e => negb (sets_dirty e)) es = true -> calmO (fun s => run c s es).
+Proof.
+  induction es as [|e es IH]; cbn [forallb]; intros H s s' Hc E; cbn in E; [injection E as <-; exact Hc|].
+  apply andb_true_iff in H. destruct H as [He Hes]. apply negb_true_iff in He.
+  destruct (step c s e) as [m|] eqn:Es; cbn in E; [|discriminate].
+  eapply (IH Hes); [|exact E]. eapply calm_step; eauto.
+Qed.
+
+(* no media / custom-binary event: the Column hypothesis holds by itself *)
+Theorem col_clean_without_hex c es : forallb (fun e => negb (sets_dirty e)) es = true -> col_clean c es = true.
+Proof.
+  intro H. unfold col_clean. destruct (run c est0 es) as [s|] eqn:E; [|reflexivity].
+  destruct (calm_run c es H est0 s) as [_ Hb]; [split; reflexivity | exact E |]. rewrite Hb. reflexivity.
+Qed.
+
+Definition hex_header (h : ahead) : bool :=
+  match h with HMedia _ => true | HCustom t _ => t =? AT_CustomBinary | HArr _ => false end.
+
+Lemma delivery_dirty strict h d g :
+  delivery strict h d g -> forallb (fun e => negb (sets_dirty e)) g = negb (hex_header h).
+Proof.
+  assert (Hchunks : forall cs, forallb (fun e => negb (sets_dirty e)) (chunks_events cs) = true).
+  { intro cs. unfold chunks_events. apply forallb_forall. intros e He. apply in_flat_map in He. destruct He as ([[n m] ds] & _ & He).
+    cbn in He. destruct He as [<-|He]; [reflexivity|]. apply in_map_iff in He. destruct He as (x & <- & _). reflexivity. }
+  destruct 1; cbn [forallb]; try reflexivity.
+  rewrite Hchunks, andb_true_r. destruct h; reflexivity.
+Qed.
+
+Lemma sets_dirty_delivery strict h d g1 g2 :
+  delivery strict h d g1 -> delivery strict h d g2 ->
+  forallb (fun e => negb (sets_dirty e)) g1 = true -> forallb (fun e => negb (sets_dirty e)) g2 = true.
+Proof. intros H1 H2. rewrite (delivery_dirty _ _ _ _ H1), (delivery_dirty _ _ _ _ H2). auto. Qed.
+
+Lemma sets_dirty_equiv strict es1 es2 :
+  chunk_equiv strict es1 es2 ->
+  forallb (fun e => negb (sets_dirty e)) es1 = true -> forallb (fun e => negb (sets_dirty e)) es2 = true.
+Proof.
+  induction 1 as [| e a b Hp Heq IH | h d g1 g2 a b Hd1 Hd2 Heq IH]; intro H; [reflexivity| |].
+  - cbn [forallb] in *. apply andb_true_iff in H. destruct H as [H1 H2]. rewrite H1, (IH H2). reflexivity.
+  - rewrite forallb_app in *. apply andb_true_iff in H. destruct H as [H1 H2].
+    rewrite (sets_dirty_delivery strict h d g1 g2 Hd1 Hd2 H1), (IH H2). reflexivity.
+Qed.
+
+(* unconditional form for streams without media / custom binary *)
+Theorem cte_text_chunk_invariant_no_hex c es1 es2 :
+  chunk_equiv true es1 es2 -> forallb (fun e => negb (sets_dirty e)) es1 = true ->
+  cte_encode c es1 = cte_encode c es2.
+Proof.
+  intros Heq H. apply cte_text_chunk_invariant; [exact Heq | apply col_clean_without_hex, H |].
+  apply col_clean_without_hex. eapply sets_dirty_equiv; eauto.
 Qed.
